@@ -1,7 +1,10 @@
 (* WriterFactsA.v - facts about the writer model (Writer.v):
    part 1: map encoding is independent of insertion order (C13);
-   part 2: simulation between runs whose map arguments are permuted (C13);
-   part 3: the statistics kept by the writer are the true aggregates of the calls (C08). *)
+   part 2: restructuring lemmas (summary section as a chain of groups, named sub-steps);
+   part 3: frame lemmas for the functions that do not touch w_channels;
+   part 4: simulation between runs whose map arguments are permuted (C13);
+   part 5: the statistics kept by the writer are the true aggregates of the calls (C08);
+   part 6: the top-level statements about W. *)
 From Coq Require Import List NArith ZArith Bool Lia ZifyN ZifyNat ZifyBool Permutation Sorted.
 From Coq.Strings Require Import Byte.
 From RecordUpdate Require Import RecordSet.
@@ -97,4 +100,1656 @@ Qed.
 Lemma enc_map_perm : forall m m', NoDup (map fst m) -> Permutation m m' -> enc_map m = enc_map m'.
 Proof.
   intros m m' Hd Hp. unfold enc_map. rewrite (kv_sort_perm_eq m m' Hd Hp). reflexivity.
+Qed.
+
+(* ====================================================================== *)
+(* Part 2: common restructuring lemmas for the writer functions            *)
+(* ====================================================================== *)
+
+Section Facts.
+Variable o : wopts.
+Variable lib_id : bytes.
+Variable compress : nat -> bytes -> bytes.
+Variable flt : option fault.
+
+(* --- summary section as a chain of groups --- *)
+Definition sres := (wstate * option err * list sumoffset)%type.
+Definition grp (cond : wstate -> bool) (op : byte) (w : wstate -> wres) (x : sres) : sres :=
+  let '(s, e, offs) := x in
+  match e with
+  | Some e => (s, Some e, offs)
+  | None => if cond s then
+      match w s with
+      | (s1, None) => (s1, None, offs ++ [group op (w_size s) s1])
+      | (s1, Some e) => (s1, Some e, offs)
+      end else (s, None, offs)
+  end.
+Definition nonnil {A} (l : list A) : bool := negb (match l with [] => true | _ => false end).
+Definition c_sch s := negb (o_skip_rsh o) && nonnil (w_schemas s).
+Definition c_chn s := negb (o_skip_rch o) && nonnil (w_channels s).
+Definition c_sta (s : wstate) := negb (o_skip_stats o).
+Definition c_cix s := negb (o_skip_ci o) && nonnil (w_chunk_indexes s).
+Definition c_aix s := negb (o_skip_ai o) && nonnil (w_att_indexes s).
+Definition c_mdx s := negb (o_skip_mdi o) && nonnil (w_md_indexes s).
+Definition g_sch s := write_all (write_schema o flt) (map snd (w_schemas s)) s.
+Definition g_chn s := write_all (write_channel o flt) (map snd (w_channels s)) s.
+Definition g_sta s := write_record_dst o flt OpStatistics (enc_statistics (stats_record s)) s.
+Definition g_cix s := write_all (fun ci => write_record_dst o flt OpChunkIndex (enc_chunkindex ci)) (w_chunk_indexes s) s.
+Definition g_aix s := write_all (fun ai => write_record_dst o flt OpAttachmentIndex (enc_attindex ai)) (w_att_indexes s) s.
+Definition g_mdx s := write_all (fun mx => write_record_dst o flt OpMetadataIndex (enc_mdindex mx)) (w_md_indexes s) s.
+
+Definition esc (x : sres) (K : wstate -> list sumoffset -> sres) : sres :=
+  let '(s, e, offs) := x in match e with Some e => (s, Some e, offs) | None => K s offs end.
+
+Lemma write_summary_nested s :
+  write_summary o flt s =
+  esc (grp c_sch OpSchema g_sch (s, None, [])) (fun s offs =>
+  esc (grp c_chn OpChannel g_chn (s, None, offs)) (fun s offs =>
+  esc (grp c_sta OpStatistics g_sta (s, None, offs)) (fun s offs =>
+  esc (grp c_cix OpChunkIndex g_cix (s, None, offs)) (fun s offs =>
+  esc (grp c_aix OpAttachmentIndex g_aix (s, None, offs)) (fun s offs =>
+  grp c_mdx OpMetadataIndex g_mdx (s, None, offs)))))).
+Proof. reflexivity. Qed.
+
+Lemma esc_grp x cond op w : esc x (fun s offs => grp cond op w (s, None, offs)) = grp cond op w x.
+Proof. destruct x as [[s [e|]] offs]; reflexivity. Qed.
+
+Lemma esc_esc x K K' : esc (esc x K) K' = esc x (fun s offs => esc (K s offs) K').
+Proof. destruct x as [[s [e|]] offs]; reflexivity. Qed.
+
+Lemma write_summary_grp s :
+  write_summary o flt s =
+  grp c_mdx OpMetadataIndex g_mdx (grp c_aix OpAttachmentIndex g_aix (grp c_cix OpChunkIndex g_cix
+   (grp c_sta OpStatistics g_sta (grp c_chn OpChannel g_chn (grp c_sch OpSchema g_sch (s, None, [])))))).
+Proof.
+  rewrite write_summary_nested.
+  rewrite <- !esc_grp. rewrite !esc_esc. reflexivity.
+Qed.
+
+(* --- flushActiveChunk --- *)
+Definition fl_chunk (s : wstate) : chunk :=
+  {| k_start := if w_cur_count s =? 0 then 0 else w_cur_start s;
+     k_end := if w_cur_count s =? 0 then 0 else w_cur_end s;
+     k_usize := blen (w_cbuf s);
+     k_crc := if o_crc o then crc32 (w_cbuf s) else 0;
+     k_comp := o_comp o;
+     k_records := compress (w_nchunks s) (w_cbuf s) |}.
+Definition fl_mis (s : wstate) : list msgindex :=
+  if o_skip_mi o then [] else
+    flat_map (fun ch => match assoc_get ch (w_msgidx s) with
+                        | Some (e :: es) => [{| mi_chan := ch; mi_entries := e :: es |}]
+                        | _ => [] end) (w_channel_ids s).
+Definition fl_start (s : wstate) : wstate := s <| w_cbuf := [] |> <| w_nchunks := S (w_nchunks s) |>.
+Definition fl_reset (s : wstate) : wstate :=
+  s <| w_msgidx := mi_reset (w_msgidx s) |> <| w_cur_start := max_u64 |> <| w_cur_end := 0 |> <| w_cur_count := 0 |>.
+
+Lemma flush_eq s :
+  flush_active_chunk o compress flt s =
+  match w_cbuf s with
+  | [] => (s, None)
+  | _ => do* s1 := write_chunk_with_indexes o flt (fl_chunk s) (fl_mis s) (fl_start s) in (fl_reset s1, None)
+  end.
+Proof.
+  unfold flush_active_chunk, fl_chunk, fl_mis, fl_start.
+  destruct (w_cbuf s) eqn:E; [reflexivity|].
+  destruct (w_cur_count s =? 0); reflexivity.
+Qed.
+
+(* --- WriteChunkWithIndexes --- *)
+Definition ci_add (k : chunk) (chunk_start chunk_end : N) (offs : list (N * N)) (s : wstate) : wstate :=
+  s <| w_chunk_indexes := w_chunk_indexes s ++
+        [{| ci_start := k_start k; ci_end := k_end k; ci_offset := chunk_start;
+            ci_length := chunk_end - chunk_start; ci_mioffsets := offs;
+            ci_milength := w_size s - chunk_end; ci_comp := k_comp k;
+            ci_csize := blen (k_records k); ci_usize := k_usize k |}] |>
+    <| w_st_chunks := w_st_chunks s + 1 |>.
+Definition wc_indexes (mis : list msgindex) (s : wstate) :=
+  if negb (o_skip_mi o) then write_msgindexes o flt mis [] s else (s, None, []).
+Lemma wcwi_eq k mis s :
+  write_chunk_with_indexes o flt k mis s =
+  if k_usize k =? 0 then (s, None) else
+  do* s1 := dst_write o flt (frame_head OpChunk (blen (enc_chunk_top k) + blen (k_records k)) ++ enc_chunk_top k) s in
+  do* s2 := dst_write o flt (k_records k) s1 in
+  do* s3 := log (IChunk k) s2 in
+  let '(s4, e, offs) := wc_indexes mis s3 in
+  match e with
+  | Some e => (s4, Some e)
+  | None => (ci_add k (w_size s) (w_size s3) offs s4, None)
+  end.
+Proof. reflexivity. Qed.
+
+(* --- WriteMessage --- *)
+Definition wm_bump (m : message) (s : wstate) : wstate :=
+  s <| w_st_counts := bump_count (m_chan m) (w_st_counts s) |> <| w_st_messages := w_st_messages s + 1 |>.
+Definition wm_idx (m : message) (s : wstate) : wstate :=
+  s <| w_msgidx := mi_add (m_chan m) (m_log m, blen (w_cbuf s)) (w_msgidx s) |>.
+Definition wm_cur (m : message) (s : wstate) : wstate :=
+  let s := s <| w_cur_count := w_cur_count s + 1 |> in
+  let s := if w_cur_end s <? m_log m then s <| w_cur_end := m_log m |> else s in
+  if m_log m <? w_cur_start s then s <| w_cur_start := m_log m |> else s.
+Definition wm_flush (s : wstate) : wres :=
+  if (o_chunksize o <? Z.of_N (blen (w_cbuf s)))%Z then flush_active_chunk o compress flt s else (s, None).
+Definition wm_body (m : message) (s : wstate) : wres :=
+  if in_chunk o s then
+    do* s := write_record_chunk OpMessage (enc_message m) (wm_idx m s) in
+    do* s := wm_flush (wm_cur m s) in
+    (stats_time (m_log m) s, None)
+  else
+    do* s := write_record_dst o flt OpMessage (enc_message m) s in
+    (stats_time (m_log m) s, None).
+Lemma write_message_eq m s :
+  write_message o compress flt m s =
+  match assoc_get (m_chan m) (w_channels s) with
+  | None => (s, Some EOther)
+  | Some _ => wm_body m (wm_bump m s)
+  end.
+Proof. reflexivity. Qed.
+
+(* --- WriteAttachment --- *)
+Definition wa_idx (a : attachment) (off : N) (s : wstate) : wstate :=
+  s <| w_att_indexes := w_att_indexes s ++
+       [{| ai_offset := off; ai_length := (9 + blen (enc_attachment_fields a) + a_size a + 4) mod two64;
+           ai_log := a_log a; ai_create := a_create a; ai_size := a_size a;
+           ai_name := a_name a; ai_media := a_media a |}] |>
+    <| w_st_attachments := w_st_attachments s + 1 |>.
+Definition wa_tail (a : attachment) (src : asrc) (off n : N) (s : wstate) : wres :=
+  if as_fail src then (s, Some EInjected) else
+  if negb (n =? a_size a) then (s, Some EAttachmentSize) else
+  let crc := crc32 (enc_attachment_fields a ++ concat (as_frags src)) in
+  do* s := dst_write o flt (u32 crc) s in
+  do* s := log (IAttach a (concat (as_frags src)) crc) s in
+  (wa_idx a off s, None).
+Lemma write_attachment_eq a src s :
+  write_attachment o flt a src s =
+  do* s1 := dst_write o flt (frame_head OpAttachment ((blen (enc_attachment_fields a) + a_size a + 4) mod two64)) s in
+  do* s2 := dst_write o flt (enc_attachment_fields a) s1 in
+  let '(s3, e, n) := copy_frags o flt (as_frags src) 0 s2 in
+  match e with
+  | Some e => (s3, Some e)
+  | None => wa_tail a src (w_size s) n s3
+  end.
+Proof. reflexivity. Qed.
+
+(* --- WriteMetadata --- *)
+Definition wmd_idx (name : bytes) (body : bytes) (off : N) (s : wstate) : wstate :=
+  s <| w_md_indexes := w_md_indexes s ++ [{| mx_offset := off; mx_length := 9 + blen body; mx_name := name |}] |>
+    <| w_st_metadata := w_st_metadata s + 1 |>.
+Lemma write_metadata_eq m s :
+  write_metadata o flt m s =
+  do* s1 := write_record_dst o flt OpMetadata (enc_metadata m) s in
+  (wmd_idx (md_name m) (enc_metadata m) (w_size s) s1, None).
+Proof. reflexivity. Qed.
+
+(* --- Close --- *)
+Definition close_end (start : N) (offs : list sumoffset) (s : wstate) : wres :=
+  let ss := match offs with [] => 0 | _ => start end in
+  let write_offsets := negb (o_skip_so o) && negb (match offs with [] => true | _ => false end) in
+  let sos := if write_offsets then w_size s else 0 in
+  do* s := (if write_offsets
+            then write_all (fun so => write_record_dst o flt OpSummaryOffset (enc_sumoffset so)) offs s
+            else (s, None)) in
+  do* s := write_footer o flt ss sos s in
+  do* s := dst_write o flt magic s in log IMagic s.
+Definition close_sum (s : wstate) : wres :=
+  let '(s1, e, offs) := write_summary o flt s in
+  match e with
+  | Some e => (s1, Some e)
+  | None => close_end (w_size s) offs s1
+  end.
+Definition set_closed (s : wstate) : wstate := s <| w_closed := true |>.
+Definition reset_crc (s : wstate) : wstate := s <| w_crc := crc_init |>.
+Definition close_tail (s : wstate) : wres :=
+  do* s := write_record_dst o flt OpDataEnd (enc_dataend {| de_crc := checksum o (set_closed s) |}) (set_closed s) in
+  close_sum (reset_crc s).
+Lemma close_eq s :
+  close o compress flt s =
+  do* s := (if o_chunked o then flush_active_chunk o compress flt s else (s, None)) in close_tail s.
+Proof. reflexivity. Qed.
+
+
+(* ====================================================================== *)
+(* Part 3: frame lemmas - functions that neither read nor write w_channels *)
+(* ====================================================================== *)
+
+Definition setch (ch : list (N * channel)) (s : wstate) : wstate := s <| w_channels := ch |>.
+Definition lift (ch : list (N * channel)) (r : wres) : wres := (setch ch (fst r), snd r).
+Definition lift3 {A} (ch : list (N * channel)) (r : wstate * option err * A) : wstate * option err * A :=
+  let '(s, e, x) := r in (setch ch s, e, x).
+
+Lemma setch_w_trace ch s : w_trace (setch ch s) = w_trace s. Proof. reflexivity. Qed.
+Lemma setch_w_out ch s : w_out (setch ch s) = w_out s. Proof. reflexivity. Qed.
+Lemma setch_w_nw ch s : w_nw (setch ch s) = w_nw s. Proof. reflexivity. Qed.
+Lemma setch_w_failed ch s : w_failed (setch ch s) = w_failed s. Proof. reflexivity. Qed.
+Lemma setch_w_size ch s : w_size (setch ch s) = w_size s. Proof. reflexivity. Qed.
+Lemma setch_w_crc ch s : w_crc (setch ch s) = w_crc s. Proof. reflexivity. Qed.
+Lemma setch_w_cbuf ch s : w_cbuf (setch ch s) = w_cbuf s. Proof. reflexivity. Qed.
+Lemma setch_w_nchunks ch s : w_nchunks (setch ch s) = w_nchunks s. Proof. reflexivity. Qed.
+Lemma setch_w_cur_start ch s : w_cur_start (setch ch s) = w_cur_start s. Proof. reflexivity. Qed.
+Lemma setch_w_cur_end ch s : w_cur_end (setch ch s) = w_cur_end s. Proof. reflexivity. Qed.
+Lemma setch_w_cur_count ch s : w_cur_count (setch ch s) = w_cur_count s. Proof. reflexivity. Qed.
+Lemma setch_w_msgidx ch s : w_msgidx (setch ch s) = w_msgidx s. Proof. reflexivity. Qed.
+Lemma setch_w_channel_ids ch s : w_channel_ids (setch ch s) = w_channel_ids s. Proof. reflexivity. Qed.
+Lemma setch_w_schema_ids ch s : w_schema_ids (setch ch s) = w_schema_ids s. Proof. reflexivity. Qed.
+Lemma setch_w_channels ch s : w_channels (setch ch s) = ch. Proof. reflexivity. Qed.
+Lemma setch_w_schemas ch s : w_schemas (setch ch s) = w_schemas s. Proof. reflexivity. Qed.
+Lemma setch_w_chunk_indexes ch s : w_chunk_indexes (setch ch s) = w_chunk_indexes s. Proof. reflexivity. Qed.
+Lemma setch_w_att_indexes ch s : w_att_indexes (setch ch s) = w_att_indexes s. Proof. reflexivity. Qed.
+Lemma setch_w_md_indexes ch s : w_md_indexes (setch ch s) = w_md_indexes s. Proof. reflexivity. Qed.
+Lemma setch_w_st_messages ch s : w_st_messages (setch ch s) = w_st_messages s. Proof. reflexivity. Qed.
+Lemma setch_w_st_schemas ch s : w_st_schemas (setch ch s) = w_st_schemas s. Proof. reflexivity. Qed.
+Lemma setch_w_st_channels ch s : w_st_channels (setch ch s) = w_st_channels s. Proof. reflexivity. Qed.
+Lemma setch_w_st_attachments ch s : w_st_attachments (setch ch s) = w_st_attachments s. Proof. reflexivity. Qed.
+Lemma setch_w_st_metadata ch s : w_st_metadata (setch ch s) = w_st_metadata s. Proof. reflexivity. Qed.
+Lemma setch_w_st_chunks ch s : w_st_chunks (setch ch s) = w_st_chunks s. Proof. reflexivity. Qed.
+Lemma setch_w_st_start ch s : w_st_start (setch ch s) = w_st_start s. Proof. reflexivity. Qed.
+Lemma setch_w_st_end ch s : w_st_end (setch ch s) = w_st_end s. Proof. reflexivity. Qed.
+Lemma setch_w_st_counts ch s : w_st_counts (setch ch s) = w_st_counts s. Proof. reflexivity. Qed.
+Lemma setch_w_closed ch s : w_closed (setch ch s) = w_closed s. Proof. reflexivity. Qed.
+Hint Rewrite setch_w_trace setch_w_out setch_w_nw setch_w_failed setch_w_size setch_w_crc setch_w_cbuf setch_w_nchunks setch_w_cur_start setch_w_cur_end setch_w_cur_count setch_w_msgidx setch_w_channel_ids setch_w_schema_ids setch_w_channels setch_w_schemas setch_w_chunk_indexes setch_w_att_indexes setch_w_md_indexes setch_w_st_messages setch_w_st_schemas setch_w_st_channels setch_w_st_attachments setch_w_st_metadata setch_w_st_chunks setch_w_st_start setch_w_st_end setch_w_st_counts setch_w_closed : setch.
+
+
+Lemma setch_id s : setch (w_channels s) s = s.
+Proof. destruct s; reflexivity. Qed.
+Lemma setch_setch ch ch' s : setch ch (setch ch' s) = setch ch s.
+Proof. reflexivity. Qed.
+
+Lemma frame_bind ch x x' k k' :
+  x' = lift ch x -> (forall s1, k' (setch ch s1) = lift ch (k s1)) -> bindw x' k' = lift ch (bindw x k).
+Proof.
+  intros -> H. destruct x as [s [e|]]; cbn [lift fst snd bindw]; [reflexivity | apply H].
+Qed.
+
+Ltac fb lem := apply frame_bind; [apply lem | let s := fresh "s" in intro s; cbv beta zeta].
+
+Lemma dst_write_frame p ch s : dst_write o flt p (setch ch s) = lift ch (dst_write o flt p s).
+Proof.
+  unfold dst_write, lift. autorewrite with setch.
+  match goal with |- (if ?c then _ else _) = _ => destruct c end; reflexivity.
+Qed.
+
+Lemma chunk_write_frame p ch s : chunk_write p (setch ch s) = lift ch (chunk_write p s).
+Proof. reflexivity. Qed.
+Lemma log_frame it ch s : log it (setch ch s) = lift ch (log it s).
+Proof. reflexivity. Qed.
+
+Lemma write_record_dst_frame op body ch s :
+  write_record_dst o flt op body (setch ch s) = lift ch (write_record_dst o flt op body s).
+Proof.
+  unfold write_record_dst. fb dst_write_frame. fb dst_write_frame. apply log_frame.
+Qed.
+
+Lemma write_record_chunk_frame op body ch s :
+  write_record_chunk op body (setch ch s) = lift ch (write_record_chunk op body s).
+Proof. unfold write_record_chunk. fb chunk_write_frame. apply chunk_write_frame. Qed.
+
+Lemma in_chunk_setch ch s : in_chunk o (setch ch s) = in_chunk o s.
+Proof. reflexivity. Qed.
+
+Lemma write_record_auto_frame op body ch s :
+  write_record_auto o flt op body (setch ch s) = lift ch (write_record_auto o flt op body s).
+Proof.
+  unfold write_record_auto. rewrite in_chunk_setch.
+  destruct (in_chunk o s); [apply write_record_chunk_frame | apply write_record_dst_frame].
+Qed.
+
+Lemma write_header_frame h ch s :
+  write_header o lib_id flt h (setch ch s) = lift ch (write_header o lib_id flt h s).
+Proof. unfold write_header. apply write_record_dst_frame. Qed.
+
+Lemma add_schema_setch sc ch s : add_schema sc (setch ch s) = setch ch (add_schema sc s).
+Proof.
+  unfold add_schema. autorewrite with setch.
+  destruct (assoc_get (s_id sc) (w_schemas s)); reflexivity.
+Qed.
+
+Lemma write_schema_frame sc ch s :
+  write_schema o flt sc (setch ch s) = lift ch (write_schema o flt sc s).
+Proof.
+  unfold write_schema. destruct (s_id sc =? 0); [reflexivity|].
+  fb write_record_auto_frame. rewrite add_schema_setch. reflexivity.
+Qed.
+
+Lemma write_msgindexes_frame l : forall offs ch s,
+  write_msgindexes o flt l offs (setch ch s) = lift3 ch (write_msgindexes o flt l offs s).
+Proof.
+  induction l as [|mi r IH]; intros offs ch s; cbn [write_msgindexes]; [reflexivity|].
+  destruct (mi_entries mi); [apply IH|].
+  autorewrite with setch. unfold write_msgindex. rewrite write_record_dst_frame.
+  destruct (write_record_dst o flt OpMessageIndex (enc_msgindex mi) s) as [s1 [e|]]; cbn [lift fst snd];
+    [reflexivity | apply IH].
+Qed.
+
+Lemma ci_add_setch k a b offs ch s : ci_add k a b offs (setch ch s) = setch ch (ci_add k a b offs s).
+Proof. reflexivity. Qed.
+
+Lemma wcwi_frame k mis ch s :
+  write_chunk_with_indexes o flt k mis (setch ch s) = lift ch (write_chunk_with_indexes o flt k mis s).
+Proof.
+  rewrite !wcwi_eq. destruct (k_usize k =? 0); [reflexivity|].
+  autorewrite with setch.
+  fb dst_write_frame. fb dst_write_frame. fb log_frame.
+  autorewrite with setch. unfold wc_indexes.
+  destruct (negb (o_skip_mi o)).
+  - rewrite write_msgindexes_frame.
+    destruct (write_msgindexes o flt mis [] s2) as [[s4 [e|]] offs]; cbn [lift3]; reflexivity.
+  - reflexivity.
+Qed.
+
+Lemma fl_chunk_setch ch s : fl_chunk (setch ch s) = fl_chunk s.
+Proof. reflexivity. Qed.
+Lemma fl_mis_setch ch s : fl_mis (setch ch s) = fl_mis s.
+Proof. reflexivity. Qed.
+Lemma fl_start_setch ch s : fl_start (setch ch s) = setch ch (fl_start s).
+Proof. reflexivity. Qed.
+Lemma fl_reset_setch ch s : fl_reset (setch ch s) = setch ch (fl_reset s).
+Proof. reflexivity. Qed.
+
+Lemma flush_frame ch s :
+  flush_active_chunk o compress flt (setch ch s) = lift ch (flush_active_chunk o compress flt s).
+Proof.
+  rewrite !flush_eq. autorewrite with setch.
+  destruct (w_cbuf s); [reflexivity|].
+  rewrite fl_chunk_setch, fl_mis_setch, fl_start_setch.
+  fb wcwi_frame. rewrite fl_reset_setch. reflexivity.
+Qed.
+
+Lemma stats_time_setch lt ch s : stats_time lt (setch ch s) = setch ch (stats_time lt s).
+Proof.
+  unfold stats_time. autorewrite with setch.
+  destruct (w_st_end s <? lt).
+  - change (w_st_start (setch ch s <| w_st_end := lt |>)) with (w_st_start s).
+    change (w_st_messages (setch ch s <| w_st_end := lt |>)) with (w_st_messages s).
+    change (w_st_start (s <| w_st_end := lt |>)) with (w_st_start s).
+    change (w_st_messages (s <| w_st_end := lt |>)) with (w_st_messages s).
+    destruct ((lt <? w_st_start s) || (w_st_messages s <=? 1)); reflexivity.
+  - autorewrite with setch.
+    destruct ((lt <? w_st_start s) || (w_st_messages s <=? 1)); reflexivity.
+Qed.
+
+Lemma wm_bump_setch m ch s : wm_bump m (setch ch s) = setch ch (wm_bump m s).
+Proof. reflexivity. Qed.
+Lemma wm_idx_setch m ch s : wm_idx m (setch ch s) = setch ch (wm_idx m s).
+Proof. reflexivity. Qed.
+Ltac norm_proj p s :=
+  repeat match goal with
+  | |- context [p ?x] => lazymatch x with s => fail | _ => change (p x) with (p s) end
+  end.
+
+Lemma wm_cur_setch m ch s : wm_cur m (setch ch s) = setch ch (wm_cur m s).
+Proof.
+  unfold wm_cur. cbv zeta.
+  norm_proj w_cur_end s. destruct (w_cur_end s <? m_log m);
+  norm_proj w_cur_start s; destruct (m_log m <? w_cur_start s); reflexivity.
+Qed.
+
+Lemma wm_flush_frame ch s : wm_flush (setch ch s) = lift ch (wm_flush s).
+Proof.
+  unfold wm_flush. autorewrite with setch.
+  destruct (o_chunksize o <? Z.of_N (blen (w_cbuf s)))%Z; [apply flush_frame | reflexivity].
+Qed.
+
+Lemma wm_body_frame m ch s : wm_body m (setch ch s) = lift ch (wm_body m s).
+Proof.
+  unfold wm_body. rewrite in_chunk_setch. destruct (in_chunk o s).
+  - rewrite wm_idx_setch. fb write_record_chunk_frame.
+    rewrite wm_cur_setch. fb wm_flush_frame.
+    rewrite stats_time_setch. reflexivity.
+  - fb write_record_dst_frame. rewrite stats_time_setch. reflexivity.
+Qed.
+
+Lemma copy_frags_frame fr : forall n ch s,
+  copy_frags o flt fr n (setch ch s) = lift3 ch (copy_frags o flt fr n s).
+Proof.
+  induction fr as [|p r IH]; intros n ch s; cbn [copy_frags]; [reflexivity|].
+  rewrite dst_write_frame.
+  destruct (dst_write o flt p s) as [s1 [e|]]; cbn [lift fst snd]; [reflexivity | apply IH].
+Qed.
+
+Lemma wa_tail_frame a src off n ch s : wa_tail a src off n (setch ch s) = lift ch (wa_tail a src off n s).
+Proof.
+  unfold wa_tail. destruct (as_fail src); [reflexivity|].
+  destruct (negb (n =? a_size a)); [reflexivity|]. cbv zeta.
+  fb dst_write_frame. fb log_frame. reflexivity.
+Qed.
+
+Lemma write_attachment_frame a src ch s :
+  write_attachment o flt a src (setch ch s) = lift ch (write_attachment o flt a src s).
+Proof.
+  rewrite !write_attachment_eq. autorewrite with setch.
+  fb dst_write_frame. fb dst_write_frame.
+  rewrite copy_frags_frame.
+  destruct (copy_frags o flt (as_frags src) 0 s1) as [[s3 [e|]] n]; cbn [lift3]; [reflexivity|].
+  apply wa_tail_frame.
+Qed.
+
+Lemma write_metadata_frame m ch s :
+  write_metadata o flt m (setch ch s) = lift ch (write_metadata o flt m s).
+Proof.
+  rewrite !write_metadata_eq. autorewrite with setch.
+  fb write_record_dst_frame. reflexivity.
+Qed.
+
+Lemma write_all_frame {A} (f : A -> wstate -> wres) :
+  (forall x ch s, f x (setch ch s) = lift ch (f x s)) ->
+  forall l ch s, write_all f l (setch ch s) = lift ch (write_all f l s).
+Proof.
+  intros Hf. induction l as [|x r IH]; intros ch s; cbn [write_all]; [reflexivity|].
+  apply frame_bind; [apply Hf | intro s1; apply IH].
+Qed.
+
+Lemma write_footer_frame ss sos ch s :
+  write_footer o flt ss sos (setch ch s) = lift ch (write_footer o flt ss sos s).
+Proof.
+  unfold write_footer. cbv zeta. fb dst_write_frame.
+  change (checksum o (setch ch s0)) with (checksum o s0).
+  fb dst_write_frame. apply log_frame.
+Qed.
+
+Lemma close_end_frame start offs ch s : close_end start offs (setch ch s) = lift ch (close_end start offs s).
+Proof.
+  unfold close_end. cbv zeta. autorewrite with setch.
+  apply frame_bind.
+  - destruct (negb (o_skip_so o) && negb (match offs with [] => true | _ => false end)); [|reflexivity].
+    apply write_all_frame. intros; apply write_record_dst_frame.
+  - intro s1. fb write_footer_frame. fb dst_write_frame. apply log_frame.
+Qed.
+
+(* ====================================================================== *)
+(* Part 4: simulation between two runs whose states differ only in the     *)
+(* stored channel records (C13)                                            *)
+(* ====================================================================== *)
+
+Definition chan_sim (c c' : channel) : Prop :=
+  c_id c = c_id c' /\ c_schema c = c_schema c' /\ enc_channel c = enc_channel c'.
+Definition chsim (l l' : list (N * channel)) : Prop :=
+  Forall2 (fun a b => fst a = fst b /\ chan_sim (snd a) (snd b)) l l'.
+Definition sim (s s' : wstate) : Prop := exists ch', s' = setch ch' s /\ chsim (w_channels s) ch'.
+Definition simres (r r' : wres) : Prop := sim (fst r) (fst r') /\ snd r = snd r'.
+Definition sim3 {A} (r r' : wstate * option err * A) : Prop :=
+  sim (fst (fst r)) (fst (fst r')) /\ snd (fst r) = snd (fst r') /\ snd r = snd r'.
+
+Lemma chan_sim_refl c : chan_sim c c.
+Proof. repeat split. Qed.
+Lemma chsim_refl l : chsim l l.
+Proof. induction l; constructor; auto. split; [reflexivity | apply chan_sim_refl]. Qed.
+Lemma sim_refl s : sim s s.
+Proof. exists (w_channels s). split; [symmetry; apply setch_id | apply chsim_refl]. Qed.
+
+Definition has {A} (k : N) (l : list (N * A)) : bool :=
+  match assoc_get k l with Some _ => true | None => false end.
+
+Lemma chsim_has l l' k : chsim l l' -> has k l = has k l'.
+Proof.
+  unfold has. induction 1 as [|a b l l' [Hk _] _ IH]; cbn [assoc_get]; [reflexivity|].
+  rewrite <- Hk. destruct (fst a =? k); [reflexivity | exact IH].
+Qed.
+
+Lemma chsim_nonnil l l' : chsim l l' -> nonnil l = nonnil l'.
+Proof. destruct 1; reflexivity. Qed.
+
+Lemma chsim_vals l l' : chsim l l' -> Forall2 chan_sim (map snd l) (map snd l').
+Proof. induction 1 as [|a b l l' [_ H] _ IH]; cbn [map]; constructor; auto. Qed.
+
+Lemma sim_proj s s' : sim s s' -> s' = setch (w_channels s') s /\ chsim (w_channels s) (w_channels s').
+Proof. intros [ch [-> H]]. autorewrite with setch. auto. Qed.
+
+Lemma framed_channels (f : wstate -> wres) :
+  (forall ch s, f (setch ch s) = lift ch (f s)) -> forall s, w_channels (fst (f s)) = w_channels s.
+Proof.
+  intros Hf s. pose proof (Hf (w_channels s) s) as H. rewrite setch_id in H.
+  rewrite H at 1. reflexivity.
+Qed.
+
+Lemma framed_sim (f : wstate -> wres) :
+  (forall ch s, f (setch ch s) = lift ch (f s)) -> forall s s', sim s s' -> simres (f s) (f s').
+Proof.
+  intros Hf s s' [ch [-> H]]. rewrite Hf. split; [|reflexivity].
+  exists ch. split; [reflexivity|]. cbn [lift fst]. rewrite (framed_channels f Hf). exact H.
+Qed.
+
+Lemma framed3_sim {A} (f : wstate -> wstate * option err * A) :
+  (forall ch s, f (setch ch s) = lift3 ch (f s)) -> forall s s', sim s s' -> sim3 (f s) (f s').
+Proof.
+  intros Hf s s' [ch [-> H]]. rewrite Hf.
+  assert (Hc : w_channels (fst (fst (f s))) = w_channels s).
+  { pose proof (Hf (w_channels s) s) as E. rewrite setch_id in E.
+    destruct (f s) as [[t e] x]. cbn [lift3] in E. cbn [fst].
+    injection E as E1. rewrite E1. reflexivity. }
+  destruct (f s) as [[t e] x]. unfold sim3. cbn [lift3 fst snd] in *.
+  repeat split. exists ch. split; [reflexivity|]. rewrite Hc. exact H.
+Qed.
+
+Lemma simres_bind x x' k k' :
+  simres x x' -> (forall t t', sim t t' -> simres (k t) (k' t')) -> simres (bindw x k) (bindw x' k').
+Proof.
+  destruct x as [t e], x' as [t' e']. intros [Hs He] Hk. cbn [fst snd] in *. subst e'.
+  destruct e as [e|]; cbn [bindw]; [split; auto | apply Hk, Hs].
+Qed.
+
+Lemma sim_upd (u : wstate -> wstate) :
+  (forall ch s, u (setch ch s) = setch ch (u s)) -> forall s s', sim s s' -> sim (u s) (u s').
+Proof.
+  intros Hu s s' H.
+  pose proof (framed_sim (fun s => (u s, None)) (fun ch s => f_equal (fun x => (x, None)) (Hu ch s)) s s' H) as [H1 _].
+  exact H1.
+Qed.
+
+Lemma add_channel_sim c c' s s' : chan_sim c c' -> sim s s' -> sim (add_channel c s) (add_channel c' s').
+Proof.
+  intros (Hid & Hsc & Henc) [ch [-> H]]. unfold add_channel. autorewrite with setch. rewrite <- Hid.
+  pose proof (chsim_has _ _ (c_id c) H) as Hh. unfold has in Hh.
+  destruct (assoc_get (c_id c) (w_channels s)), (assoc_get (c_id c) ch); try discriminate.
+  - exists ch. auto.
+  - exists (ch ++ [(c_id c, c')]). split; [reflexivity|].
+    change (chsim (w_channels s ++ [(c_id c, c)]) (ch ++ [(c_id c, c')])).
+    apply Forall2_app; [exact H|]. constructor; [|constructor].
+    cbn [fst snd]. repeat split; auto.
+Qed.
+
+Lemma write_channel_sim c c' s s' :
+  chan_sim c c' -> sim s s' -> simres (write_channel o flt c s) (write_channel o flt c' s').
+Proof.
+  intros Hc Hs. pose proof Hc as (Hid & Hsc & Henc).
+  unfold write_channel. rewrite <- Hsc, <- Henc.
+  assert (E : w_schemas s' = w_schemas s) by (destruct Hs as [ch [-> _]]; reflexivity).
+  rewrite E.
+  destruct ((0 <? c_schema c) &&
+            negb (match assoc_get (c_schema c) (w_schemas s) with Some _ => true | None => false end)).
+  - split; [exact Hs | reflexivity].
+  - apply simres_bind.
+    + apply framed_sim; [intros; apply write_record_auto_frame | exact Hs].
+    + intros t t' Ht. split; [|reflexivity]. cbn [fst]. apply add_channel_sim; assumption.
+Qed.
+
+Lemma write_all_channel_sim l l' :
+  Forall2 chan_sim l l' -> forall s s', sim s s' ->
+  simres (write_all (write_channel o flt) l s) (write_all (write_channel o flt) l' s').
+Proof.
+  induction 1 as [|c c' l l' Hc _ IH]; intros s s' Hs; cbn [write_all].
+  - split; [exact Hs | reflexivity].
+  - apply simres_bind; [apply write_channel_sim; assumption | exact IH].
+Qed.
+
+Lemma write_message_sim m s s' :
+  sim s s' -> simres (write_message o compress flt m s) (write_message o compress flt m s').
+Proof.
+  intro Hs. rewrite !write_message_eq.
+  pose proof (sim_proj _ _ Hs) as [_ Hc].
+  pose proof (chsim_has _ _ (m_chan m) Hc) as Hh. unfold has in Hh.
+  destruct (assoc_get (m_chan m) (w_channels s)), (assoc_get (m_chan m) (w_channels s')); try discriminate.
+  - apply (framed_sim (fun s => wm_body m (wm_bump m s))); [|exact Hs].
+    intros ch t. rewrite wm_bump_setch. apply wm_body_frame.
+  - split; [exact Hs | reflexivity].
+Qed.
+
+(* summary *)
+Lemma grp_sim cond op w x x' :
+  sim3 x x' ->
+  (forall s s', sim s s' -> cond s = cond s') ->
+  (forall s s', sim s s' -> simres (w s) (w s')) ->
+  sim3 (grp cond op w x) (grp cond op w x').
+Proof.
+  destruct x as [[s e] offs], x' as [[s' e'] offs']. intros (Hs & He & Ho) Hc Hw.
+  cbn [fst snd] in *. subst e' offs'. unfold grp.
+  destruct e as [e|]; [repeat split; auto|].
+  rewrite <- (Hc _ _ Hs). destruct (cond s); [|repeat split; auto].
+  pose proof (Hw _ _ Hs) as [H1 H2].
+  assert (Hz : w_size s' = w_size s) by (destruct Hs as [ch [-> _]]; reflexivity).
+  destruct (w s) as [t r], (w s') as [t' r']. cbn [fst snd] in *. subst r'.
+  destruct r as [r|]; cbn [fst snd]; repeat split; auto.
+  rewrite Hz. unfold group.
+  assert (Hz' : w_size t' = w_size t) by (destruct H1 as [ch [-> _]]; reflexivity).
+  rewrite Hz'. reflexivity.
+Qed.
+
+Lemma cond_sim_simple (c : wstate -> bool) :
+  (forall ch s, c (setch ch s) = c s) -> forall s s', sim s s' -> c s = c s'.
+Proof. intros H s s' [ch [-> _]]. symmetry. apply H. Qed.
+
+Lemma write_summary_sim s s' : sim s s' -> sim3 (write_summary o flt s) (write_summary o flt s').
+Proof.
+  intro Hs. rewrite !write_summary_grp.
+  apply grp_sim; [apply grp_sim; [apply grp_sim; [apply grp_sim; [apply grp_sim; [apply grp_sim|..]|..]|..]|..]|..].
+  - repeat split; auto.
+  - apply cond_sim_simple. reflexivity.
+  - apply framed_sim. intros ch t. unfold g_sch. autorewrite with setch.
+    apply write_all_frame. intros; apply write_schema_frame.
+  - intros t t' Ht. unfold c_chn. apply sim_proj in Ht. destruct Ht as [_ Ht].
+    rewrite (chsim_nonnil _ _ Ht). reflexivity.
+  - intros t t' Ht. unfold g_chn. apply write_all_channel_sim; [|exact Ht].
+    apply chsim_vals. apply sim_proj in Ht. apply Ht.
+  - apply cond_sim_simple. reflexivity.
+  - apply framed_sim. intros ch t. unfold g_sta.
+    change (stats_record (setch ch t)) with (stats_record t). apply write_record_dst_frame.
+  - apply cond_sim_simple. reflexivity.
+  - apply framed_sim. intros ch t. unfold g_cix. autorewrite with setch.
+    apply write_all_frame. intros; apply write_record_dst_frame.
+  - apply cond_sim_simple. reflexivity.
+  - apply framed_sim. intros ch t. unfold g_aix. autorewrite with setch.
+    apply write_all_frame. intros; apply write_record_dst_frame.
+  - apply cond_sim_simple. reflexivity.
+  - apply framed_sim. intros ch t. unfold g_mdx. autorewrite with setch.
+    apply write_all_frame. intros; apply write_record_dst_frame.
+Qed.
+
+Lemma close_sim s s' : sim s s' -> simres (close o compress flt s) (close o compress flt s').
+Proof.
+  intro Hs. rewrite !close_eq. apply simres_bind.
+  - apply (framed_sim (fun s => if o_chunked o then flush_active_chunk o compress flt s else (s, None))); [|exact Hs].
+    intros ch t. destruct (o_chunked o); [apply flush_frame | reflexivity].
+  - clear s s' Hs. intros s s' Hs. unfold close_tail. apply simres_bind.
+    + apply (framed_sim (fun s => write_record_dst o flt OpDataEnd
+                (enc_dataend {| de_crc := checksum o (set_closed s) |}) (set_closed s))); [|exact Hs].
+      intros ch t. change (checksum o (set_closed (setch ch t))) with (checksum o (set_closed t)).
+      change (set_closed (setch ch t)) with (setch ch (set_closed t)). apply write_record_dst_frame.
+    + clear s s' Hs. intros s s' Hs. unfold close_sum.
+      assert (Hr : sim (reset_crc s) (reset_crc s')) by (apply sim_upd; [reflexivity | exact Hs]).
+      assert (Hz : w_size (reset_crc s') = w_size (reset_crc s)) by (destruct Hr as [ch [-> _]]; reflexivity).
+      rewrite Hz.
+      pose proof (write_summary_sim _ _ Hr) as (H1 & H2 & H3).
+      destruct (write_summary o flt (reset_crc s)) as [[t e] offs].
+      destruct (write_summary o flt (reset_crc s')) as [[t' e'] offs'].
+      cbn [fst snd] in *. subst e' offs'.
+      destruct e as [e|]; [split; auto|].
+      apply framed_sim; [intros; apply close_end_frame | exact H1].
+Qed.
+
+Inductive call_equiv : wcall -> wcall -> Prop :=
+| ce_refl c : call_equiv c c
+| ce_channel c c' : c_id c = c_id c' -> c_schema c = c_schema c' -> c_topic c = c_topic c' -> c_menc c = c_menc c' ->
+    NoDup (map fst (c_meta c)) -> Permutation (c_meta c) (c_meta c') -> call_equiv (CChannel c) (CChannel c')
+| ce_metadata m m' : md_name m = md_name m' -> NoDup (map fst (md_meta m)) -> Permutation (md_meta m) (md_meta m') ->
+    call_equiv (CMetadata m) (CMetadata m').
+
+Lemma step_sim_refl c s s' :
+  sim s s' -> simres (step o lib_id compress flt c s) (step o lib_id compress flt c s').
+Proof.
+  intro Hs. destruct c as [h|sc|c|m|a src|m|]; cbn [step].
+  - apply framed_sim; [intros; apply write_header_frame | exact Hs].
+  - apply framed_sim; [intros; apply write_schema_frame | exact Hs].
+  - apply write_channel_sim; [apply chan_sim_refl | exact Hs].
+  - apply write_message_sim, Hs.
+  - apply framed_sim; [intros; apply write_attachment_frame | exact Hs].
+  - apply framed_sim; [intros; apply write_metadata_frame | exact Hs].
+  - apply close_sim, Hs.
+Qed.
+
+Lemma step_sim c c' s s' :
+  call_equiv c c' -> sim s s' -> simres (step o lib_id compress flt c s) (step o lib_id compress flt c' s').
+Proof.
+  intros Hc Hs. destruct Hc as [c | c c' H1 H2 H3 H4 Hd Hp | m m' H1 Hd Hp].
+  - apply step_sim_refl, Hs.
+  - cbn [step]. apply write_channel_sim; [|exact Hs].
+    repeat split; auto. unfold enc_channel.
+    rewrite H1, H2, H3, H4, (enc_map_perm _ _ Hd Hp). reflexivity.
+  - cbn [step]. rewrite !write_metadata_eq.
+    assert (E : enc_metadata m' = enc_metadata m).
+    { unfold enc_metadata. rewrite H1, (enc_map_perm _ _ Hd Hp). reflexivity. }
+    rewrite E, <- H1. rewrite <- !write_metadata_eq.
+    apply framed_sim; [intros; apply write_metadata_frame | exact Hs].
+Qed.
+
+Lemma run_calls_sim cs cs' :
+  Forall2 call_equiv cs cs' -> forall s s' acc, sim s s' ->
+  sim (fst (run_calls o lib_id compress flt cs s acc)) (fst (run_calls o lib_id compress flt cs' s' acc)) /\
+  snd (run_calls o lib_id compress flt cs s acc) = snd (run_calls o lib_id compress flt cs' s' acc).
+Proof.
+  induction 1 as [|c c' cs cs' Hc _ IH]; intros s s' acc Hs; cbn [run_calls].
+  - split; [exact Hs | reflexivity].
+  - pose proof (step_sim _ _ _ _ Hc Hs) as [H1 H2].
+    destruct (step o lib_id compress flt c s) as [t e], (step o lib_id compress flt c' s') as [t' e'].
+    cbn [fst snd] in *. subst e'.
+    assert (Hn : w_nw t' = w_nw t) by (destruct H1 as [ch [-> _]]; reflexivity).
+    rewrite Hn. apply IH, H1.
+Qed.
+
+(* ====================================================================== *)
+(* Part 5: statistics (C08)                                                *)
+(* ====================================================================== *)
+
+(* ---- the true aggregates of a list of calls ---- *)
+Definition is_message (c : wcall) : bool := match c with CMessage _ => true | _ => false end.
+Definition is_message_on (ch : N) (c : wcall) : bool := match c with CMessage m => m_chan m =? ch | _ => false end.
+Definition is_attachment (c : wcall) : bool := match c with CAttachment _ _ => true | _ => false end.
+Definition is_metadata (c : wcall) : bool := match c with CMetadata _ => true | _ => false end.
+Definition count_calls (p : wcall -> bool) (cs : list wcall) : N := N.of_nat (length (filter p cs)).
+Definition schema_ids (cs : list wcall) : list N :=
+  flat_map (fun c => match c with CSchema sc => [s_id sc] | _ => [] end) cs.
+Definition channel_ids (cs : list wcall) : list N :=
+  flat_map (fun c => match c with CChannel c => [c_id c] | _ => [] end) cs.
+Definition log_times (cs : list wcall) : list N :=
+  flat_map (fun c => match c with CMessage m => [m_log m] | _ => [] end) cs.
+Definition distinct (l : list N) : N := N.of_nat (length (nodup N.eq_dec l)).
+Definition min_of (l : list N) : N := match l with [] => 0 | t :: r => fold_left N.min r t end.
+Definition max_of (l : list N) : N := match l with [] => 0 | t :: r => fold_left N.max r t end.
+
+Record aggregates := {
+  ag_messages : N;                (* number of WriteMessage calls *)
+  ag_messages_on : N -> N;        (* ... per channel id *)
+  ag_schemas : N;                 (* distinct schema ids written *)
+  ag_channels : N;                (* distinct channel ids written *)
+  ag_attachments : N;
+  ag_metadata : N;
+  ag_start : N;                   (* earliest log time, 0 when there is no message *)
+  ag_end : N                      (* latest log time, 0 when there is no message *)
+}.
+Definition true_stats (cs : list wcall) : aggregates :=
+  {| ag_messages := count_calls is_message cs;
+     ag_messages_on := fun ch => count_calls (is_message_on ch) cs;
+     ag_schemas := distinct (schema_ids cs);
+     ag_channels := distinct (channel_ids cs);
+     ag_attachments := count_calls is_attachment cs;
+     ag_metadata := count_calls is_metadata cs;
+     ag_start := min_of (log_times cs);
+     ag_end := max_of (log_times cs) |}.
+
+Definition on_opt (n : N) : option N := if n =? 0 then None else Some n.
+
+Definition stats_correct (cs : list wcall) (s : wstate) : Prop :=
+  let a := true_stats cs in
+  w_st_messages s = ag_messages a /\
+  (forall ch, nn_get ch (w_st_counts s) = on_opt (ag_messages_on a ch)) /\
+  w_st_schemas s = ag_schemas a /\
+  w_st_channels s = ag_channels a /\
+  w_st_attachments s = ag_attachments a /\
+  w_st_metadata s = ag_metadata a /\
+  w_st_chunks s = N.of_nat (length (w_chunk_indexes s)) /\
+  w_st_start s = ag_start a /\
+  w_st_end s = ag_end a.
+
+(* ---- snoc lemmas for the aggregates ---- *)
+Lemma count_calls_snoc p pre c : count_calls p (pre ++ [c]) = count_calls p pre + (if p c then 1 else 0).
+Proof.
+  unfold count_calls. rewrite filter_app, app_length. cbn [filter].
+  destruct (p c); cbn [length]; lia.
+Qed.
+Lemma schema_ids_snoc pre c :
+  schema_ids (pre ++ [c]) = schema_ids pre ++ match c with CSchema sc => [s_id sc] | _ => [] end.
+Proof. unfold schema_ids. rewrite flat_map_app. cbn [flat_map]. rewrite app_nil_r. reflexivity. Qed.
+Lemma channel_ids_snoc pre c :
+  channel_ids (pre ++ [c]) = channel_ids pre ++ match c with CChannel c => [c_id c] | _ => [] end.
+Proof. unfold channel_ids. rewrite flat_map_app. cbn [flat_map]. rewrite app_nil_r. reflexivity. Qed.
+Lemma log_times_snoc pre c :
+  log_times (pre ++ [c]) = log_times pre ++ match c with CMessage m => [m_log m] | _ => [] end.
+Proof. unfold log_times. rewrite flat_map_app. cbn [flat_map]. rewrite app_nil_r. reflexivity. Qed.
+
+Lemma nodup_snoc_length (l : list N) x :
+  length (nodup N.eq_dec (l ++ [x])) = (length (nodup N.eq_dec l) + (if in_dec N.eq_dec x l then 0 else 1))%nat.
+Proof.
+  induction l as [|a l IH]; cbn [app nodup].
+  - destruct (in_dec N.eq_dec x []) as [[]|]; reflexivity.
+  - destruct (in_dec N.eq_dec a (l ++ [x])) as [Hi|Hi]; destruct (in_dec N.eq_dec a l) as [Hi'|Hi'];
+      cbn [length]; rewrite IH;
+      destruct (in_dec N.eq_dec x l) as [Hx|Hx]; destruct (in_dec N.eq_dec x (a :: l)) as [Hy|Hy];
+      try lia; exfalso; rewrite ?in_app_iff in *; cbn [In] in *; intuition (subst; auto).
+Qed.
+
+Lemma distinct_snoc l x : distinct (l ++ [x]) = distinct l + (if in_dec N.eq_dec x l then 0 else 1).
+Proof. unfold distinct. rewrite nodup_snoc_length. destruct (in_dec N.eq_dec x l); lia. Qed.
+
+Lemma min_of_snoc l x : min_of (l ++ [x]) = match l with [] => x | _ => N.min (min_of l) x end.
+Proof. destruct l as [|t r]; [reflexivity|]. cbn [app min_of]. rewrite fold_left_app. reflexivity. Qed.
+Lemma max_of_snoc l x : max_of (l ++ [x]) = match l with [] => x | _ => N.max (max_of l) x end.
+Proof. destruct l as [|t r]; [reflexivity|]. cbn [app max_of]. rewrite fold_left_app. reflexivity. Qed.
+
+Lemma log_times_nil_iff cs : log_times cs = [] <-> count_calls is_message cs = 0.
+Proof.
+  unfold log_times, count_calls. induction cs as [|c cs IH]; cbn [flat_map filter]; [split; reflexivity|].
+  destruct c; cbn [is_message app length]; try exact IH. split; [discriminate | lia].
+Qed.
+
+(* ---- nn_get / nn_set ---- *)
+Lemma nn_get_set_same k v l : nn_get k (nn_set k v l) = Some v.
+Proof.
+  induction l as [|x r IH]; cbn [nn_set nn_get fst snd].
+  - rewrite N.eqb_refl. reflexivity.
+  - destruct (fst x =? k) eqn:E; cbn [nn_get fst snd].
+    + rewrite N.eqb_refl. reflexivity.
+    + destruct (k <? fst x); cbn [nn_get fst snd].
+      * rewrite N.eqb_refl. reflexivity.
+      * rewrite E. exact IH.
+Qed.
+Lemma nn_get_set_other k k' v l : k' <> k -> nn_get k' (nn_set k v l) = nn_get k' l.
+Proof.
+  intro Hne. assert (Hk : (k =? k') = false) by (apply N.eqb_neq; congruence).
+  induction l as [|x r IH]; cbn [nn_set nn_get fst snd].
+  - rewrite Hk. reflexivity.
+  - destruct (fst x =? k) eqn:E; cbn [nn_get fst snd].
+    + rewrite Hk. apply N.eqb_eq in E. rewrite E, Hk. reflexivity.
+    + destruct (k <? fst x); cbn [nn_get fst snd].
+      * rewrite Hk. reflexivity.
+      * destruct (fst x =? k'); [reflexivity | exact IH].
+Qed.
+
+(* ---- assoc lists ---- *)
+Lemma has_app {A} k (l : list (N * A)) x :
+  has k (l ++ [x]) = has k l || (fst x =? k).
+Proof.
+  unfold has. induction l as [|a l IH]; cbn [app assoc_get].
+  - destruct (fst x =? k); reflexivity.
+  - destruct (fst a =? k); [reflexivity | exact IH].
+Qed.
+Lemma in_has {A} k (v : A) l : In (k, v) l -> has k l = true.
+Proof.
+  unfold has. induction l as [|a l IH]; [intros []|]. intros [H|H]; cbn [assoc_get].
+  - subst a. cbn [fst]. rewrite N.eqb_refl. reflexivity.
+  - destruct (fst a =? k); [reflexivity | apply IH, H].
+Qed.
+
+(* ---- the part of the state the statistics proof looks at ---- *)
+Definition vA (s : wstate) :=
+  (w_st_messages s, w_st_counts s, w_st_schemas s, w_st_channels s, w_st_attachments s, w_st_metadata s,
+   w_st_start s, w_st_end s, w_channels s, w_schemas s, w_channel_ids s).
+Definition vC (s : wstate) := (w_st_chunks s, w_chunk_indexes s).
+Definition ck (s : wstate) : Prop := w_st_chunks s = N.of_nat (length (w_chunk_indexes s)).
+(* strong preservation: all of it, and the ghost trace only grows *)
+Definition pres (s t : wstate) : Prop := vA t = vA s /\ vC t = vC s /\ incl (w_trace s) (w_trace t).
+(* weak preservation: chunk count and chunk index list may grow together *)
+Definition rel (s t : wstate) : Prop := vA t = vA s /\ (ck s -> ck t).
+
+Lemma pres_refl s : pres s s.
+Proof. repeat split. apply incl_refl. Qed.
+Lemma pres_trans s t u : pres s t -> pres t u -> pres s u.
+Proof. intros (A1 & C1 & T1) (A2 & C2 & T2). repeat split; try congruence. eapply incl_tran; eassumption. Qed.
+Lemma rel_refl s : rel s s.
+Proof. split; auto. Qed.
+Lemma rel_trans s t u : rel s t -> rel t u -> rel s u.
+Proof. intros (A1 & C1) (A2 & C2). split; [congruence | auto]. Qed.
+Lemma pres_rel s t : pres s t -> rel s t.
+Proof. intros (A1 & C1 & _). split; [exact A1|]. unfold ck, vC in *. injection C1 as -> ->. auto. Qed.
+
+Lemma vA_fields s t : vA t = vA s ->
+  w_st_messages t = w_st_messages s /\ w_st_counts t = w_st_counts s /\ w_st_schemas t = w_st_schemas s /\
+  w_st_channels t = w_st_channels s /\ w_st_attachments t = w_st_attachments s /\
+  w_st_metadata t = w_st_metadata s /\ w_st_start t = w_st_start s /\ w_st_end t = w_st_end s /\
+  w_channels t = w_channels s /\ w_schemas t = w_schemas s /\ w_channel_ids t = w_channel_ids s.
+Proof. unfold vA. intro H. injection H as -> -> -> -> -> -> -> -> -> -> ->. repeat split. Qed.
+
+Lemma bindw_ok x k t : bindw x k = (t, None) -> exists s1, x = (s1, None) /\ k s1 = (t, None).
+Proof. destruct x as [s1 [e|]]; cbn [bindw]; [discriminate | eauto]. Qed.
+
+Lemma pres_bind s x k : pres s (fst x) -> (forall s1, pres s1 (fst (k s1))) -> pres s (fst (bindw x k)).
+Proof.
+  destruct x as [s1 [e|]]; cbn [bindw fst]; intros H Hk; [exact H|].
+  eapply pres_trans; [exact H | apply Hk].
+Qed.
+Lemma rel_bind s x k : rel s (fst x) -> (forall s1, rel s1 (fst (k s1))) -> rel s (fst (bindw x k)).
+Proof.
+  destruct x as [s1 [e|]]; cbn [bindw fst]; intros H Hk; [exact H|].
+  eapply rel_trans; [exact H | apply Hk].
+Qed.
+
+Ltac pb lem := apply pres_bind; [apply lem | let s := fresh "s" in intro s; cbv beta zeta].
+
+Lemma dst_write_pres p s : pres s (fst (dst_write o flt p s)).
+Proof.
+  unfold dst_write.
+  match goal with |- context [if ?c then _ else _] => destruct c end; cbn [fst]; repeat split; apply incl_refl.
+Qed.
+Lemma chunk_write_pres p s : pres s (fst (chunk_write p s)).
+Proof. repeat split. apply incl_refl. Qed.
+Lemma log_pres it s : pres s (fst (log it s)).
+Proof. repeat split. apply incl_tl, incl_refl. Qed.
+Lemma write_record_dst_pres op body s : pres s (fst (write_record_dst o flt op body s)).
+Proof. unfold write_record_dst. pb dst_write_pres. pb dst_write_pres. apply log_pres. Qed.
+Lemma write_record_chunk_pres op body s : pres s (fst (write_record_chunk op body s)).
+Proof. unfold write_record_chunk. pb chunk_write_pres. apply chunk_write_pres. Qed.
+Lemma write_record_auto_pres op body s : pres s (fst (write_record_auto o flt op body s)).
+Proof.
+  unfold write_record_auto. destruct (in_chunk o s); [apply write_record_chunk_pres | apply write_record_dst_pres].
+Qed.
+Lemma write_header_pres h s : pres s (fst (write_header o lib_id flt h s)).
+Proof. apply write_record_dst_pres. Qed.
+Lemma write_all_pres {A} (f : A -> wstate -> wres) :
+  (forall x s, pres s (fst (f x s))) -> forall l s, pres s (fst (write_all f l s)).
+Proof.
+  intros Hf. induction l as [|x r IH]; intro s; cbn [write_all]; [apply pres_refl|].
+  apply pres_bind; [apply Hf | exact IH].
+Qed.
+Lemma write_footer_pres ss sos s : pres s (fst (write_footer o flt ss sos s)).
+Proof. unfold write_footer. cbv zeta. pb dst_write_pres. pb dst_write_pres. apply log_pres. Qed.
+Lemma close_end_pres start offs s : pres s (fst (close_end start offs s)).
+Proof.
+  unfold close_end. cbv zeta. apply pres_bind.
+  - destruct (negb (o_skip_so o) && negb (match offs with [] => true | _ => false end)); [|apply pres_refl].
+    apply write_all_pres. intros; apply write_record_dst_pres.
+  - intro s1. pb write_footer_pres. pb dst_write_pres. apply log_pres.
+Qed.
+Lemma write_msgindexes_pres l : forall offs s, pres s (fst (fst (write_msgindexes o flt l offs s))).
+Proof.
+  induction l as [|mi r IH]; intros offs s; cbn [write_msgindexes]; [apply pres_refl|].
+  destruct (mi_entries mi); [apply IH|].
+  pose proof (write_record_dst_pres OpMessageIndex (enc_msgindex mi) s) as H. unfold write_msgindex.
+  destruct (write_record_dst o flt OpMessageIndex (enc_msgindex mi) s) as [s1 [e|]]; cbn [fst] in *; [exact H|].
+  eapply pres_trans; [exact H | apply IH].
+Qed.
+Lemma copy_frags_pres fr : forall n s, pres s (fst (fst (copy_frags o flt fr n s))).
+Proof.
+  induction fr as [|p r IH]; intros n s; cbn [copy_frags]; [apply pres_refl|].
+  pose proof (dst_write_pres p s) as H.
+  destruct (dst_write o flt p s) as [s1 [e|]]; cbn [fst] in *; [exact H|].
+  eapply pres_trans; [exact H | apply IH].
+Qed.
+
+(* chunks *)
+Lemma ci_add_rel k a b offs s : rel s (ci_add k a b offs s).
+Proof.
+  split; [reflexivity|]. unfold ck, ci_add. cbn. intro H. rewrite H, app_length. cbn [length]. lia.
+Qed.
+Lemma wcwi_rel k mis s : rel s (fst (write_chunk_with_indexes o flt k mis s)).
+Proof.
+  rewrite wcwi_eq. destruct (k_usize k =? 0); [apply rel_refl|].
+  apply rel_bind; [apply pres_rel, dst_write_pres | intro s1].
+  apply rel_bind; [apply pres_rel, dst_write_pres | intro s2].
+  apply rel_bind; [apply pres_rel, log_pres | intro s3].
+  assert (H : pres s3 (fst (fst (wc_indexes mis s3)))).
+  { unfold wc_indexes. destruct (negb (o_skip_mi o)); [apply write_msgindexes_pres | apply pres_refl]. }
+  destruct (wc_indexes mis s3) as [[s4 [e|]] offs]; cbn [fst] in *.
+  - apply pres_rel, H.
+  - eapply rel_trans; [apply pres_rel, H | apply ci_add_rel].
+Qed.
+Lemma flush_rel s : rel s (fst (flush_active_chunk o compress flt s)).
+Proof.
+  rewrite flush_eq. destruct (w_cbuf s); [apply rel_refl|].
+  apply (rel_trans _ (fl_start s)); [split; [reflexivity | auto]|].
+  apply rel_bind; [apply wcwi_rel | intro s1]. split; [reflexivity | auto].
+Qed.
+
+(* ---- effect of each successful call ---- *)
+Lemma write_schema_ok sc s t :
+  write_schema o flt sc s = (t, None) -> exists s1, pres s s1 /\ t = add_schema sc s1.
+Proof.
+  unfold write_schema. destruct (s_id sc =? 0); [discriminate|]. intro H.
+  apply bindw_ok in H. destruct H as (s1 & H1 & H2). exists s1. split.
+  - pose proof (write_record_auto_pres OpSchema (enc_schema sc) s) as P. rewrite H1 in P. exact P.
+  - congruence.
+Qed.
+Lemma add_schema_present sc s : has (s_id sc) (w_schemas s) = true -> add_schema sc s = s.
+Proof. unfold has, add_schema. destruct (assoc_get (s_id sc) (w_schemas s)); [reflexivity | discriminate]. Qed.
+Lemma write_schema_present sc s :
+  has (s_id sc) (w_schemas s) = true -> pres s (fst (write_schema o flt sc s)).
+Proof.
+  intro Hh. unfold write_schema. destruct (s_id sc =? 0); [apply pres_refl|].
+  pose proof (write_record_auto_pres OpSchema (enc_schema sc) s) as P.
+  destruct (write_record_auto o flt OpSchema (enc_schema sc) s) as [s1 [e|]]; cbn [bindw fst] in *; [exact P|].
+  rewrite add_schema_present; [exact P|].
+  destruct P as (PA & _). apply vA_fields in PA. destruct PA as (_&_&_&_&_&_&_&_&_&E&_). rewrite E. exact Hh.
+Qed.
+
+Lemma write_channel_ok c s t :
+  write_channel o flt c s = (t, None) -> exists s1, pres s s1 /\ t = add_channel c s1.
+Proof.
+  unfold write_channel.
+  destruct ((0 <? c_schema c) && negb (match assoc_get (c_schema c) (w_schemas s) with Some _ => true | None => false end));
+    [discriminate|]. intro H.
+  apply bindw_ok in H. destruct H as (s1 & H1 & H2). exists s1. split.
+  - pose proof (write_record_auto_pres OpChannel (enc_channel c) s) as P. rewrite H1 in P. exact P.
+  - congruence.
+Qed.
+Lemma add_channel_present c s : has (c_id c) (w_channels s) = true -> add_channel c s = s.
+Proof. unfold has, add_channel. destruct (assoc_get (c_id c) (w_channels s)); [reflexivity | discriminate]. Qed.
+Lemma write_channel_present c s :
+  has (c_id c) (w_channels s) = true -> pres s (fst (write_channel o flt c s)).
+Proof.
+  intro Hh. unfold write_channel.
+  destruct ((0 <? c_schema c) && negb (match assoc_get (c_schema c) (w_schemas s) with Some _ => true | None => false end));
+    [apply pres_refl|].
+  pose proof (write_record_auto_pres OpChannel (enc_channel c) s) as P.
+  destruct (write_record_auto o flt OpChannel (enc_channel c) s) as [s1 [e|]]; cbn [bindw fst] in *; [exact P|].
+  rewrite add_channel_present; [exact P|].
+  destruct P as (PA & _). apply vA_fields in PA. destruct PA as (_&_&_&_&_&_&_&_&E&_&_). rewrite E. exact Hh.
+Qed.
+
+Lemma wm_body_ok m s t :
+  wm_body m s = (t, None) -> exists s2, rel s s2 /\ t = stats_time (m_log m) s2.
+Proof.
+  unfold wm_body. destruct (in_chunk o s); intro H.
+  - apply bindw_ok in H. destruct H as (s1 & H1 & H).
+    apply bindw_ok in H. destruct H as (s2 & H2 & H).
+    exists s2. split; [|congruence].
+    apply (rel_trans _ (wm_idx m s)); [split; [reflexivity | auto]|].
+    apply (rel_trans _ s1).
+    { pose proof (write_record_chunk_pres OpMessage (enc_message m) (wm_idx m s)) as P. rewrite H1 in P.
+      apply pres_rel, P. }
+    apply (rel_trans _ (wm_cur m s1)).
+    { unfold wm_cur. cbv zeta.
+      repeat match goal with |- context [if ?c then _ else _] => destruct c end; split; try reflexivity; auto. }
+    unfold wm_flush in H2.
+    destruct (o_chunksize o <? Z.of_N (blen (w_cbuf (wm_cur m s1))))%Z.
+    + pose proof (flush_rel (wm_cur m s1)) as P. rewrite H2 in P. exact P.
+    + injection H2 as <-. apply rel_refl.
+  - apply bindw_ok in H. destruct H as (s1 & H1 & H). exists s1. split; [|congruence].
+    pose proof (write_record_dst_pres OpMessage (enc_message m) s) as P. rewrite H1 in P. apply pres_rel, P.
+Qed.
+
+Lemma write_message_ok m s t :
+  write_message o compress flt m s = (t, None) ->
+  has (m_chan m) (w_channels s) = true /\ exists s2, rel (wm_bump m s) s2 /\ t = stats_time (m_log m) s2.
+Proof.
+  rewrite write_message_eq. unfold has.
+  destruct (assoc_get (m_chan m) (w_channels s)); [|discriminate].
+  intro H. split; [reflexivity | apply wm_body_ok, H].
+Qed.
+
+Lemma write_attachment_ok a src s t :
+  write_attachment o flt a src s = (t, None) -> exists s5, pres s s5 /\ t = wa_idx a (w_size s) s5.
+Proof.
+  rewrite write_attachment_eq. intro H.
+  apply bindw_ok in H. destruct H as (s1 & H1 & H).
+  apply bindw_ok in H. destruct H as (s2 & H2 & H).
+  pose proof (dst_write_pres (frame_head OpAttachment ((blen (enc_attachment_fields a) + a_size a + 4) mod two64)) s) as P1.
+  rewrite H1 in P1.
+  pose proof (dst_write_pres (enc_attachment_fields a) s1) as P2. rewrite H2 in P2.
+  pose proof (copy_frags_pres (as_frags src) 0 s2) as P3.
+  destruct (copy_frags o flt (as_frags src) 0 s2) as [[s3 [e|]] n]; [discriminate|]. cbn [fst] in *.
+  unfold wa_tail in H. destruct (as_fail src); [discriminate|].
+  destruct (negb (n =? a_size a)); [discriminate|]. cbv zeta in H.
+  apply bindw_ok in H. destruct H as (s4 & H4 & H).
+  apply bindw_ok in H. destruct H as (s5 & H5 & H).
+  match type of H4 with dst_write _ _ ?p _ = _ => pose proof (dst_write_pres p s3) as P4 end. rewrite H4 in P4.
+  match type of H5 with log ?it _ = _ => pose proof (log_pres it s4) as P5 end. rewrite H5 in P5.
+  exists s5. split; [|congruence].
+  eapply pres_trans; [exact P1|]. eapply pres_trans; [exact P2|]. eapply pres_trans; [exact P3|].
+  eapply pres_trans; [exact P4 | exact P5].
+Qed.
+
+Lemma write_metadata_ok m s t :
+  write_metadata o flt m s = (t, None) ->
+  exists s1, pres s s1 /\ t = wmd_idx (md_name m) (enc_metadata m) (w_size s) s1.
+Proof.
+  rewrite write_metadata_eq. intro H. apply bindw_ok in H. destruct H as (s1 & H1 & H).
+  exists s1. split; [|congruence].
+  pose proof (write_record_dst_pres OpMetadata (enc_metadata m) s) as P. rewrite H1 in P. exact P.
+Qed.
+
+(* ---- Close ---- *)
+Definition wfkeys (s : wstate) : Prop :=
+  Forall (fun p => fst p = s_id (snd p)) (w_schemas s) /\ Forall (fun p => fst p = c_id (snd p)) (w_channels s).
+
+Lemma wfkeys_pres s t : pres s t -> wfkeys s -> wfkeys t.
+Proof.
+  intros (PA & _) [H1 H2]. apply vA_fields in PA. destruct PA as (_&_&_&_&_&_&_&_&E1&E2&_).
+  unfold wfkeys. rewrite E1, E2. auto.
+Qed.
+
+Lemma write_all_schema_pres l : forall s,
+  (forall sc, In sc l -> has (s_id sc) (w_schemas s) = true) ->
+  pres s (fst (write_all (write_schema o flt) l s)).
+Proof.
+  induction l as [|sc r IH]; intros s Hl; cbn [write_all]; [apply pres_refl|].
+  pose proof (write_schema_present sc s (Hl sc (or_introl eq_refl))) as P.
+  destruct (write_schema o flt sc s) as [s1 [e|]]; cbn [bindw fst] in *; [exact P|].
+  eapply pres_trans; [exact P|]. apply IH. intros sc' Hi.
+  destruct P as (PA & _). apply vA_fields in PA. destruct PA as (_&_&_&_&_&_&_&_&_&E&_). rewrite E.
+  apply Hl. right. exact Hi.
+Qed.
+Lemma write_all_channel_pres l : forall s,
+  (forall c, In c l -> has (c_id c) (w_channels s) = true) ->
+  pres s (fst (write_all (write_channel o flt) l s)).
+Proof.
+  induction l as [|c r IH]; intros s Hl; cbn [write_all]; [apply pres_refl|].
+  pose proof (write_channel_present c s (Hl c (or_introl eq_refl))) as P.
+  destruct (write_channel o flt c s) as [s1 [e|]]; cbn [bindw fst] in *; [exact P|].
+  eapply pres_trans; [exact P|]. apply IH. intros c' Hi.
+  destruct P as (PA & _). apply vA_fields in PA. destruct PA as (_&_&_&_&_&_&_&_&E&_&_). rewrite E.
+  apply Hl. right. exact Hi.
+Qed.
+
+Lemma g_sch_pres s : wfkeys s -> pres s (fst (g_sch s)).
+Proof.
+  intros [H _]. unfold g_sch. apply write_all_schema_pres. intros sc Hi.
+  apply in_map_iff in Hi. destruct Hi as ([k sc'] & E & Hi). cbn [snd] in E. subst sc'.
+  rewrite Forall_forall in H. pose proof (H _ Hi) as Hk. cbn [fst snd] in Hk. subst k.
+  eapply in_has; exact Hi.
+Qed.
+Lemma g_chn_pres s : wfkeys s -> pres s (fst (g_chn s)).
+Proof.
+  intros [_ H]. unfold g_chn. apply write_all_channel_pres. intros c Hi.
+  apply in_map_iff in Hi. destruct Hi as ([k c'] & E & Hi). cbn [snd] in E. subst c'.
+  rewrite Forall_forall in H. pose proof (H _ Hi) as Hk. cbn [fst snd] in Hk. subst k.
+  eapply in_has; exact Hi.
+Qed.
+
+Lemma grp_pres cond op w s0 x :
+  (forall s, wfkeys s -> pres s (fst (w s))) ->
+  wfkeys s0 -> pres s0 (fst (fst x)) -> pres s0 (fst (fst (grp cond op w x))).
+Proof.
+  intros Hw Hk Hx. destruct x as [[s [e|]] offs]; cbn [grp fst] in *; [exact Hx|].
+  destruct (cond s); [|exact Hx].
+  pose proof (Hw s (wfkeys_pres _ _ Hx Hk)) as P.
+  destruct (w s) as [s1 [e|]]; cbn [fst] in *; eapply pres_trans; eassumption.
+Qed.
+
+Lemma write_summary_pres s : wfkeys s -> pres s (fst (fst (write_summary o flt s))).
+Proof.
+  intro Hk. rewrite write_summary_grp.
+  repeat (apply grp_pres; [| exact Hk |]).
+  7: apply pres_refl.
+  - intros; unfold g_mdx; apply write_all_pres; intros; apply write_record_dst_pres.
+  - intros; unfold g_aix; apply write_all_pres; intros; apply write_record_dst_pres.
+  - intros; unfold g_cix; apply write_all_pres; intros; apply write_record_dst_pres.
+  - intros; unfold g_sta; apply write_record_dst_pres.
+  - intros; apply g_chn_pres; assumption.
+  - intros; apply g_sch_pres; assumption.
+Qed.
+
+
+Lemma wfkeys_vA s t : vA t = vA s -> wfkeys s -> wfkeys t.
+Proof.
+  intros PA [H1 H2]. apply vA_fields in PA. destruct PA as (_&_&_&_&_&_&_&_&E1&E2&_).
+  unfold wfkeys. rewrite E1, E2. auto.
+Qed.
+
+Lemma close_tail_pres s : wfkeys s -> pres s (fst (close_tail s)).
+Proof.
+  intro Hk. unfold close_tail.
+  assert (P0 : pres s (set_closed s)) by (repeat split; apply incl_refl).
+  pose proof (write_record_dst_pres OpDataEnd (enc_dataend {| de_crc := checksum o (set_closed s) |}) (set_closed s)) as P1.
+  destruct (write_record_dst o flt OpDataEnd (enc_dataend {| de_crc := checksum o (set_closed s) |}) (set_closed s))
+    as [s1 [e|]]; cbn [bindw fst] in *; [exact (pres_trans _ _ _ P0 P1)|].
+  assert (P2 : pres s1 (reset_crc s1)) by (repeat split; apply incl_refl).
+  assert (P : pres s (reset_crc s1)) by (exact (pres_trans _ _ _ P0 (pres_trans _ _ _ P1 P2))).
+  unfold close_sum.
+  pose proof (write_summary_pres (reset_crc s1) (wfkeys_pres _ _ P Hk)) as P3.
+  destruct (write_summary o flt (reset_crc s1)) as [[s2 [e|]] offs]; cbn [fst] in *.
+  - exact (pres_trans _ _ _ P P3).
+  - eapply pres_trans; [exact P|]. eapply pres_trans; [exact P3 | apply close_end_pres].
+Qed.
+
+Lemma close_rel s : wfkeys s -> rel s (fst (close o compress flt s)).
+Proof.
+  intro Hk. rewrite close_eq. destruct (o_chunked o).
+  - pose proof (flush_rel s) as R.
+    destruct (flush_active_chunk o compress flt s) as [s1 [e|]]; cbn [bindw fst] in *; [exact R|].
+    eapply rel_trans; [exact R|]. apply pres_rel, close_tail_pres.
+    destruct R as [RA _]. eapply wfkeys_vA; eassumption.
+  - cbn [bindw]. apply pres_rel, close_tail_pres, Hk.
+Qed.
+
+(* the statistics record written by Close *)
+Lemma stats_record_pres s t : pres s t -> stats_record t = stats_record s.
+Proof.
+  intros (PA & PC & _). apply vA_fields in PA.
+  destruct PA as (E1&E2&E3&E4&E5&E6&E7&E8&E9&E10&E11).
+  unfold vC in PC. injection PC as C1 C2.
+  unfold stats_record. rewrite E1, E2, E3, E4, E5, E6, E7, E8, E11, C1. reflexivity.
+Qed.
+
+Lemma write_record_dst_ok op body s t :
+  write_record_dst o flt op body s = (t, None) -> In (IRec op body) (w_trace t) /\ pres s t.
+Proof.
+  intro H. split.
+  - unfold write_record_dst in H.
+    apply bindw_ok in H. destruct H as (s1 & _ & H).
+    apply bindw_ok in H. destruct H as (s2 & _ & H).
+    unfold log in H. injection H as <-. left. reflexivity.
+  - pose proof (write_record_dst_pres op body s) as P. rewrite H in P. exact P.
+Qed.
+
+Lemma grp_ok cond op w x t offs' :
+  grp cond op w x = (t, None, offs') ->
+  exists s offs, x = (s, None, offs) /\ ((cond s = true /\ w s = (t, None)) \/ (cond s = false /\ t = s)).
+Proof.
+  destruct x as [[s [e|]] offs]; cbn [grp]; [discriminate|]. intro H. exists s, offs. split; [reflexivity|].
+  destruct (cond s).
+  - left. split; [reflexivity|]. destruct (w s) as [s1 [e|]]; [discriminate|]. congruence.
+  - right. split; [reflexivity|]. congruence.
+Qed.
+
+Lemma grp_ok_pres cond op w x t offs' :
+  (forall s, pres s (fst (w s))) ->
+  grp cond op w x = (t, None, offs') -> exists s offs, x = (s, None, offs) /\ pres s t.
+Proof.
+  intros Hw H. apply grp_ok in H. destruct H as (s & offs & Hx & [[_ H]|[_ H]]); exists s, offs; split; auto.
+  - pose proof (Hw s) as P. rewrite H in P. exact P.
+  - subst t. apply pres_refl.
+Qed.
+
+Lemma write_summary_stats s t offs :
+  o_skip_stats o = false ->
+  write_summary o flt s = (t, None, offs) ->
+  In (IRec OpStatistics (enc_statistics (stats_record t))) (w_trace t).
+Proof.
+  intros Hskip H. rewrite write_summary_grp in H.
+  apply grp_ok_pres in H; [|intros; unfold g_mdx; apply write_all_pres; intros; apply write_record_dst_pres].
+  destruct H as (s5 & o5 & H & P5).
+  apply grp_ok_pres in H; [|intros; unfold g_aix; apply write_all_pres; intros; apply write_record_dst_pres].
+  destruct H as (s4 & o4 & H & P4).
+  apply grp_ok_pres in H; [|intros; unfold g_cix; apply write_all_pres; intros; apply write_record_dst_pres].
+  destruct H as (s3 & o3 & H & P3).
+  apply grp_ok in H. destruct H as (sb & ob & _ & [[_ H]|[Hc _]]).
+  - unfold g_sta in H. apply write_record_dst_ok in H. destruct H as [Hin Pb].
+    assert (P : pres s3 t) by (eapply pres_trans; [exact P3 | eapply pres_trans; eassumption]).
+    rewrite (stats_record_pres _ _ (pres_trans _ _ _ Pb P)).
+    destruct P as (_ & _ & Pt). apply Pt, Hin.
+  - unfold c_sta in Hc. rewrite Hskip in Hc. discriminate.
+Qed.
+
+Lemma close_stats s t :
+  o_skip_stats o = false -> close o compress flt s = (t, None) ->
+  In (IRec OpStatistics (enc_statistics (stats_record t))) (w_trace t).
+Proof.
+  intros Hskip H. rewrite close_eq in H.
+  apply bindw_ok in H. destruct H as (s1 & _ & H). unfold close_tail in H.
+  apply bindw_ok in H. destruct H as (s2 & _ & H). unfold close_sum in H.
+  destruct (write_summary o flt (reset_crc s2)) as [[s4 [e|]] offs] eqn:WS; [discriminate|].
+  pose proof (close_end_pres (w_size (reset_crc s2)) offs s4) as P. rewrite H in P. cbn [fst] in P.
+  rewrite (stats_record_pres _ _ P). destruct P as (_ & _ & Pt). apply Pt.
+  eapply write_summary_stats; eassumption.
+Qed.
+
+(* ---- the invariant ---- *)
+Definition P_msg (n : N) (cnts : list (N * N)) (st en : N) (pre : list wcall) : Prop :=
+  n = count_calls is_message pre /\
+  (forall ch, nn_get ch cnts = on_opt (count_calls (is_message_on ch) pre)) /\
+  st = min_of (log_times pre) /\ en = max_of (log_times pre).
+Definition P_sch (n : N) (l : list (N * schema)) (ids : list N) : Prop :=
+  n = distinct ids /\ (forall k, has k l = true <-> In k ids) /\ Forall (fun p => fst p = s_id (snd p)) l.
+Definition P_chn (n : N) (l : list (N * channel)) (cids : list N) (ids : list N) : Prop :=
+  n = distinct ids /\ (forall k, has k l = true <-> In k ids) /\ Forall (fun p => fst p = c_id (snd p)) l /\
+  (forall k, In k cids <-> In k ids) /\ NoDup cids.
+Definition Inv (pre : list wcall) (s : wstate) : Prop :=
+  P_msg (w_st_messages s) (w_st_counts s) (w_st_start s) (w_st_end s) pre /\
+  P_sch (w_st_schemas s) (w_schemas s) (schema_ids pre) /\
+  P_chn (w_st_channels s) (w_channels s) (w_channel_ids s) (channel_ids pre) /\
+  w_st_attachments s = count_calls is_attachment pre /\
+  w_st_metadata s = count_calls is_metadata pre /\
+  ck s /\
+  (forall ch, count_calls (is_message_on ch) pre <> 0 -> In ch (channel_ids pre)).
+
+Definition not_message (c : wcall) : Prop := match c with CMessage _ => False | _ => True end.
+
+Lemma P_msg_skip n cnts st en pre c : not_message c -> P_msg n cnts st en pre -> P_msg n cnts st en (pre ++ [c]).
+Proof.
+  intros Hc (H1 & H2 & H3 & H4). unfold P_msg.
+  rewrite log_times_snoc, !count_calls_snoc.
+  destruct c; try contradiction; cbn [is_message]; rewrite app_nil_r, N.add_0_r; repeat split; auto;
+    intro ch; rewrite count_calls_snoc; cbn [is_message_on]; rewrite N.add_0_r; apply H2.
+Qed.
+
+Lemma on_opt_0 : on_opt 0 = None. Proof. reflexivity. Qed.
+Lemma on_opt_pos n : n <> 0 -> on_opt n = Some n.
+Proof. intro H. unfold on_opt. destruct (N.eqb_spec n 0); [contradiction | reflexivity]. Qed.
+
+Lemma P_msg_step n cnts st en pre m :
+  P_msg n cnts st en pre ->
+  P_msg (n + 1) (bump_count (m_chan m) cnts)
+        (if (m_log m <? st) || (n + 1 <=? 1) then m_log m else st)
+        (if en <? m_log m then m_log m else en)
+        (pre ++ [CMessage m]).
+Proof.
+  intros (H1 & H2 & H3 & H4). unfold P_msg.
+  rewrite log_times_snoc, count_calls_snoc, min_of_snoc, max_of_snoc. cbn [is_message].
+  split; [lia|]. split.
+  - intro ch. rewrite count_calls_snoc. cbn [is_message_on]. unfold bump_count.
+    destruct (N.eqb_spec (m_chan m) ch) as [->|Hne].
+    + rewrite nn_get_set_same, H2. unfold on_opt.
+      destruct (N.eqb_spec (count_calls (is_message_on ch) pre) 0) as [->|Hz].
+      * reflexivity.
+      * destruct (N.eqb_spec (count_calls (is_message_on ch) pre + 1) 0); [lia | reflexivity].
+    + rewrite nn_get_set_other by congruence. rewrite N.add_0_r. apply H2.
+  - pose proof (log_times_nil_iff pre) as Hnil. rewrite <- H1 in Hnil.
+    destruct (log_times pre) as [|t0 r] eqn:EL.
+    + assert (Hn : n = 0) by (apply Hnil; reflexivity). cbn [min_of max_of] in *. rewrite H3, H4, Hn.
+      split; [destruct (m_log m <? 0); reflexivity|]. destruct (N.ltb_spec 0 (m_log m)); lia.
+    + assert (n <> 0) by (intro Hz; apply Hnil in Hz; discriminate).
+      rewrite <- H3, <- H4. split.
+      * destruct (N.ltb_spec (m_log m) st), (N.leb_spec (n + 1) 1); cbn [orb]; lia.
+      * destruct (N.ltb_spec en (m_log m)); lia.
+Qed.
+
+Lemma P_sch_same n l ids id : P_sch n l ids -> has id l = true -> P_sch n l (ids ++ [id]).
+Proof.
+  intros (H1 & H2 & H3) Hh. unfold P_sch. rewrite distinct_snoc.
+  assert (Hi : In id ids) by (apply H2, Hh).
+  destruct (in_dec N.eq_dec id ids); [|contradiction]. repeat split; auto; try lia.
+  - intro H. apply in_or_app. left. apply H2, H.
+  - intro H. apply in_app_or in H. destruct H as [H|[<-|[]]]; [apply H2, H | exact Hh].
+Qed.
+Lemma P_sch_add n l ids sc :
+  P_sch n l ids -> has (s_id sc) l = false -> P_sch (n + 1) (l ++ [(s_id sc, sc)]) (ids ++ [s_id sc]).
+Proof.
+  intros (H1 & H2 & H3) Hh. unfold P_sch. rewrite distinct_snoc.
+  assert (Hi : ~ In (s_id sc) ids) by (intro Hi; apply H2 in Hi; congruence).
+  destruct (in_dec N.eq_dec (s_id sc) ids); [contradiction|]. repeat split; try lia.
+  - rewrite has_app. cbn [fst]. intro H. apply in_or_app. apply orb_true_iff in H.
+    destruct H as [H|H]; [left; apply H2, H | right; left; apply N.eqb_eq, H].
+  - rewrite has_app. cbn [fst]. intro H. apply orb_true_iff. apply in_app_or in H.
+    destruct H as [H|[<-|[]]]; [left; apply H2, H | right; apply N.eqb_refl].
+  - apply Forall_app. split; [exact H3|]. constructor; [reflexivity | constructor].
+Qed.
+Lemma P_chn_same n l cids ids id : P_chn n l cids ids -> has id l = true -> P_chn n l cids (ids ++ [id]).
+Proof.
+  intros (H1 & H2 & H3 & H4 & H5) Hh. unfold P_chn. rewrite distinct_snoc.
+  assert (Hi : In id ids) by (apply H2, Hh).
+  destruct (in_dec N.eq_dec id ids); [|contradiction]. repeat split; auto; try lia.
+  - intro H. apply in_or_app. left. apply H2, H.
+  - intro H. apply in_app_or in H. destruct H as [H|[<-|[]]]; [apply H2, H | exact Hh].
+  - intro H. apply in_or_app. left. apply H4, H.
+  - intro H. apply in_app_or in H. destruct H as [H|[<-|[]]]; apply H4; assumption.
+Qed.
+Lemma NoDup_snoc {A} (l : list A) x : NoDup l -> ~ In x l -> NoDup (l ++ [x]).
+Proof.
+  induction 1 as [|a l Ha Hl IH]; intro Hx; cbn [app].
+  - constructor; [intros [] | constructor].
+  - constructor.
+    + intro H. apply in_app_or in H. destruct H as [H|[H|[]]]; [contradiction|].
+      subst. apply Hx. left. reflexivity.
+    + apply IH. intro H. apply Hx. right. exact H.
+Qed.
+Lemma P_chn_add n l cids ids c :
+  P_chn n l cids ids -> has (c_id c) l = false ->
+  P_chn (n + 1) (l ++ [(c_id c, c)]) (cids ++ [c_id c]) (ids ++ [c_id c]).
+Proof.
+  intros (H1 & H2 & H3 & H4 & H5) Hh. unfold P_chn. rewrite distinct_snoc.
+  assert (Hi : ~ In (c_id c) ids) by (intro Hi; apply H2 in Hi; congruence).
+  destruct (in_dec N.eq_dec (c_id c) ids); [contradiction|]. repeat split; try lia.
+  - rewrite has_app. cbn [fst]. intro H. apply in_or_app. apply orb_true_iff in H.
+    destruct H as [H|H]; [left; apply H2, H | right; left; apply N.eqb_eq, H].
+  - rewrite has_app. cbn [fst]. intro H. apply orb_true_iff. apply in_app_or in H.
+    destruct H as [H|[<-|[]]]; [left; apply H2, H | right; apply N.eqb_refl].
+  - apply Forall_app. split; [exact H3|]. constructor; [reflexivity | constructor].
+  - intro H. apply in_or_app. apply in_app_or in H. destruct H as [H|H]; [left; apply H4, H | right; exact H].
+  - intro H. apply in_or_app. apply in_app_or in H. destruct H as [H|H]; [left; apply H4, H | right; exact H].
+  - apply NoDup_snoc; [exact H5|]. intro H. apply Hi, H4, H.
+Qed.
+
+Lemma stats_time_fields lt s :
+  w_st_messages (stats_time lt s) = w_st_messages s /\ w_st_counts (stats_time lt s) = w_st_counts s /\
+  w_st_schemas (stats_time lt s) = w_st_schemas s /\ w_st_channels (stats_time lt s) = w_st_channels s /\
+  w_st_attachments (stats_time lt s) = w_st_attachments s /\ w_st_metadata (stats_time lt s) = w_st_metadata s /\
+  w_st_start (stats_time lt s) = (if (lt <? w_st_start s) || (w_st_messages s <=? 1) then lt else w_st_start s) /\
+  w_st_end (stats_time lt s) = (if w_st_end s <? lt then lt else w_st_end s) /\
+  w_channels (stats_time lt s) = w_channels s /\ w_schemas (stats_time lt s) = w_schemas s /\
+  w_channel_ids (stats_time lt s) = w_channel_ids s /\ vC (stats_time lt s) = vC s.
+Proof.
+  unfold stats_time. destruct (w_st_end s <? lt).
+  - norm_proj w_st_start s. norm_proj w_st_messages s.
+    destruct ((lt <? w_st_start s) || (w_st_messages s <=? 1)); repeat split.
+  - destruct ((lt <? w_st_start s) || (w_st_messages s <=? 1)); repeat split.
+Qed.
+
+Definition neutral (c : wcall) : Prop := match c with CHeader _ | CClose => True | _ => False end.
+
+Ltac inv_split := refine (conj _ (conj _ (conj _ (conj _ (conj _ (conj _ _)))))).
+Ltac snoc_norm :=
+  rewrite ?schema_ids_snoc, ?channel_ids_snoc, ?count_calls_snoc;
+  cbn [is_attachment is_metadata]; rewrite ?app_nil_r, ?N.add_0_r.
+
+Lemma Inv_vA pre s t : Inv pre s -> vA t = vA s -> (ck s -> ck t) -> Inv pre t.
+Proof.
+  intros (H1&H2&H3&H4&H5&H6&H7) HA HC. apply vA_fields in HA.
+  destruct HA as (E1&E2&E3&E4&E5&E6&E7&E8&E9&E10&E11).
+  unfold Inv. rewrite E1, E2, E3, E4, E5, E6, E7, E8, E9, E10, E11.
+  exact (conj H1 (conj H2 (conj H3 (conj H4 (conj H5 (conj (HC H6) H7)))))).
+Qed.
+Lemma Inv_rel pre s t : Inv pre s -> rel s t -> Inv pre t.
+Proof. intros H [HA HC]. eapply Inv_vA; eassumption. Qed.
+
+Lemma on_skip pre c :
+  not_message c ->
+  (forall ch, count_calls (is_message_on ch) pre <> 0 -> In ch (channel_ids pre)) ->
+  forall ch, count_calls (is_message_on ch) (pre ++ [c]) <> 0 -> In ch (channel_ids (pre ++ [c])).
+Proof.
+  intros Hc H ch. rewrite count_calls_snoc, channel_ids_snoc.
+  destruct c; try contradiction; cbn [is_message_on]; rewrite N.add_0_r; intro Hn;
+    apply in_or_app; left; apply H, Hn.
+Qed.
+
+Lemma Inv_neutral pre c s : neutral c -> Inv pre s -> Inv (pre ++ [c]) s.
+Proof.
+  intros Hc (H1&H2&H3&H4&H5&H6&H7). unfold Inv.
+  destruct c; try contradiction; (inv_split; [apply P_msg_skip; [exact I | exact H1] | snoc_norm; assumption ..
+                                             | apply on_skip; [exact I | exact H7]]).
+Qed.
+
+Lemma Inv_add_schema pre s sc : Inv pre s -> Inv (pre ++ [CSchema sc]) (add_schema sc s).
+Proof.
+  intros (H1&H2&H3&H4&H5&H6&H7).
+  unfold add_schema. destruct (assoc_get (s_id sc) (w_schemas s)) eqn:E.
+  - unfold Inv. inv_split; [apply P_msg_skip; [exact I | exact H1] | snoc_norm .. | apply on_skip; [exact I | exact H7]];
+      try assumption.
+    apply P_sch_same; [exact H2|]. unfold has. rewrite E. reflexivity.
+  - unfold Inv. cbn.
+    inv_split; [apply P_msg_skip; [exact I | exact H1] | snoc_norm .. | apply on_skip; [exact I | exact H7]];
+      try assumption.
+    apply P_sch_add; [exact H2|]. unfold has. rewrite E. reflexivity.
+Qed.
+
+Lemma Inv_add_channel pre s c : Inv pre s -> Inv (pre ++ [CChannel c]) (add_channel c s).
+Proof.
+  intros (H1&H2&H3&H4&H5&H6&H7).
+  unfold add_channel. destruct (assoc_get (c_id c) (w_channels s)) eqn:E.
+  - unfold Inv. inv_split; [apply P_msg_skip; [exact I | exact H1] | snoc_norm .. | apply on_skip; [exact I | exact H7]];
+      try assumption.
+    apply P_chn_same; [exact H3|]. unfold has. rewrite E. reflexivity.
+  - unfold Inv. cbn.
+    inv_split; [apply P_msg_skip; [exact I | exact H1] | snoc_norm .. | apply on_skip; [exact I | exact H7]];
+      try assumption.
+    apply P_chn_add; [exact H3|]. unfold has. rewrite E. reflexivity.
+Qed.
+
+Lemma Inv_message pre s s2 m :
+  Inv pre s -> has (m_chan m) (w_channels s) = true -> rel (wm_bump m s) s2 ->
+  Inv (pre ++ [CMessage m]) (stats_time (m_log m) s2).
+Proof.
+  intros (H1&H2&H3&H4&H5&H6&H7) Hh [HA HC].
+  apply vA_fields in HA. cbn in HA. destruct HA as (E1&E2&E3&E4&E5&E6&E7&E8&E9&E10&E11).
+  pose proof (stats_time_fields (m_log m) s2) as (F1&F2&F3&F4&F5&F6&F7&F8&F9&F10&F11&F12).
+  unfold Inv. rewrite F1, F2, F3, F4, F5, F6, F7, F8, F9, F10, F11.
+  rewrite E1, E2, E3, E4, E5, E6, E7, E8, E9, E10, E11.
+  inv_split; [apply P_msg_step, H1 | snoc_norm; assumption .. | | ].
+  - unfold ck. unfold vC in F12. injection F12 as -> ->. apply HC, H6.
+  - intro ch. rewrite count_calls_snoc, channel_ids_snoc, app_nil_r. cbn [is_message_on].
+    destruct (N.eqb_spec (m_chan m) ch) as [<-|Hne].
+    + intros _. destruct H3 as (_ & Hk & _). apply Hk, Hh.
+    + rewrite N.add_0_r. apply H7.
+Qed.
+
+Lemma Inv_attachment pre s a src off : Inv pre s -> Inv (pre ++ [CAttachment a src]) (wa_idx a off s).
+Proof.
+  intros (H1&H2&H3&H4&H5&H6&H7). unfold Inv, wa_idx. cbn.
+  inv_split; [apply P_msg_skip; [exact I | exact H1] | snoc_norm .. | apply on_skip; [exact I | exact H7]];
+    try assumption.
+  congruence.
+Qed.
+
+Lemma Inv_metadata pre s m name body off : Inv pre s -> Inv (pre ++ [CMetadata m]) (wmd_idx name body off s).
+Proof.
+  intros (H1&H2&H3&H4&H5&H6&H7). unfold Inv, wmd_idx. cbn.
+  inv_split; [apply P_msg_skip; [exact I | exact H1] | snoc_norm .. | apply on_skip; [exact I | exact H7]];
+    try assumption.
+  congruence.
+Qed.
+
+Lemma Inv_wfkeys pre s : Inv pre s -> wfkeys s.
+Proof. intros (_&(_&_&H2)&(_&_&H3&_)&_). split; assumption. Qed.
+
+Lemma Inv_step pre s c t :
+  Inv pre s -> step o lib_id compress flt c s = (t, None) -> Inv (pre ++ [c]) t.
+Proof.
+  intros HI H. destruct c as [h|sc|c|m|a src|m|]; cbn [step] in H.
+  - pose proof (write_header_pres h s) as P. rewrite H in P.
+    apply Inv_neutral; [exact I|]. eapply Inv_rel; [exact HI | apply pres_rel, P].
+  - apply write_schema_ok in H. destruct H as (s1 & P & ->).
+    apply Inv_add_schema. eapply Inv_rel; [exact HI | apply pres_rel, P].
+  - apply write_channel_ok in H. destruct H as (s1 & P & ->).
+    apply Inv_add_channel. eapply Inv_rel; [exact HI | apply pres_rel, P].
+  - apply write_message_ok in H. destruct H as (Hh & s2 & R & ->).
+    eapply Inv_message; eassumption.
+  - apply write_attachment_ok in H. destruct H as (s5 & P & ->).
+    apply Inv_attachment. eapply Inv_rel; [exact HI | apply pres_rel, P].
+  - apply write_metadata_ok in H. destruct H as (s1 & P & ->).
+    apply Inv_metadata. eapply Inv_rel; [exact HI | apply pres_rel, P].
+  - pose proof (close_rel s (Inv_wfkeys _ _ HI)) as R. rewrite H in R.
+    apply Inv_neutral; [exact I|]. eapply Inv_rel; eassumption.
+Qed.
+
+(* ---- runs ---- *)
+Fixpoint run_states (cs : list wcall) (s : wstate) : wstate :=
+  match cs with [] => s | c :: r => run_states r (fst (step o lib_id compress flt c s)) end.
+Fixpoint run_results (cs : list wcall) (s : wstate) : list (option err * nat) :=
+  match cs with
+  | [] => []
+  | c :: r => let x := step o lib_id compress flt c s in (snd x, w_nw (fst x)) :: run_results r (fst x)
+  end.
+Lemma run_calls_spec cs : forall s acc,
+  run_calls o lib_id compress flt cs s acc = (run_states cs s, rev acc ++ run_results cs s).
+Proof.
+  induction cs as [|c r IH]; intros s acc; cbn [run_calls run_states run_results].
+  - rewrite app_nil_r. reflexivity.
+  - destruct (step o lib_id compress flt c s) as [s' e]. rewrite IH. cbn [rev fst snd].
+    rewrite <- app_assoc. reflexivity.
+Qed.
+Lemma run_states_snoc cs c s :
+  run_states (cs ++ [c]) s = fst (step o lib_id compress flt c (run_states cs s)).
+Proof. revert s. induction cs as [|a r IH]; intro s; cbn [app run_states]; [reflexivity | apply IH]. Qed.
+Lemma run_results_snoc cs c s :
+  run_results (cs ++ [c]) s =
+  run_results cs s ++ [(snd (step o lib_id compress flt c (run_states cs s)),
+                        w_nw (fst (step o lib_id compress flt c (run_states cs s))))].
+Proof.
+  revert s. induction cs as [|a r IH]; intro s; cbn [app run_states run_results]; [reflexivity|].
+  rewrite IH. reflexivity.
+Qed.
+
+Lemma run_inv cs : forall pre s,
+  Inv pre s -> Forall (fun r => fst r = None) (run_results cs s) -> Inv (pre ++ cs) (run_states cs s).
+Proof.
+  induction cs as [|c r IH]; intros pre s HI HF; cbn [run_states run_results] in *.
+  - rewrite app_nil_r. exact HI.
+  - apply Forall_cons_iff in HF. destruct HF as [He HF]. cbn [fst] in He.
+    replace (pre ++ c :: r) with ((pre ++ [c]) ++ r) by (rewrite <- app_assoc; reflexivity).
+    apply IH; [|exact HF]. apply Inv_step with (s := s); [exact HI|].
+    destruct (step o lib_id compress flt c s) as [t e]. cbn [fst snd] in *. subst e. reflexivity.
+Qed.
+
+Lemma Inv_init : Inv [] init_state.
+Proof.
+  unfold Inv, P_msg, P_sch, P_chn, ck. cbn.
+  repeat split; auto; try discriminate; try contradiction; try constructor.
+Qed.
+
+Lemma new_writer_inv s : new_writer o flt = (s, None) -> Inv [] s.
+Proof.
+  unfold new_writer. intro H. apply bindw_ok in H. destruct H as (s1 & H1 & H).
+  assert (s = s1).
+  { repeat match type of H with context [if ?c then _ else _] => destruct c end; congruence. }
+  subst s1. clear H.
+  assert (P : pres init_state s).
+  { destruct (o_skip_magic o).
+    - injection H1 as <-. apply pres_refl.
+    - apply bindw_ok in H1. destruct H1 as (s1 & H1 & H2).
+      pose proof (dst_write_pres magic init_state) as P1. rewrite H1 in P1.
+      pose proof (log_pres IMagic s1) as P2. rewrite H2 in P2.
+      eapply pres_trans; eassumption. }
+  eapply Inv_rel; [apply Inv_init | apply pres_rel, P].
+Qed.
+
+Lemma Inv_stats_correct cs s : Inv cs s -> stats_correct cs s.
+Proof.
+  intros ((A1&A2&A3&A4)&(B1&_)&(C1&_)&D&E&F&_). unfold stats_correct, true_stats. cbn.
+  repeat split; auto.
+Qed.
+
+(* the per-channel counts of the statistics record *)
+Lemma counts_nodup (f : N -> option N) (l : list N) :
+  NoDup l -> NoDup (map fst (flat_map (fun ch => match f ch with Some v => [(ch, v)] | None => [] end) l)).
+Proof.
+  induction 1 as [|a l Ha Hl IH]; cbn [flat_map map]; [constructor|].
+  destruct (f a); cbn [app map fst]; [|exact IH]. constructor; [|exact IH].
+  intro H. apply in_map_iff in H. destruct H as ([k v] & Hk & H). cbn [fst] in Hk. subst k.
+  apply in_flat_map in H. destruct H as (k & Hk & H). destruct (f k); [|contradiction].
+  destruct H as [H|[]]. injection H as -> _. contradiction.
+Qed.
+
+Definition record_correct (cs : list wcall) (nchunks : N) (st : statistics) : Prop :=
+  let a := true_stats cs in
+  st_messages st = ag_messages a /\ st_schemas st = ag_schemas a /\ st_channels st = ag_channels a /\
+  st_attachments st = ag_attachments a /\ st_metadata st = ag_metadata a /\ st_chunks st = nchunks /\
+  st_start st = ag_start a /\ st_end st = ag_end a /\
+  (forall ch n, In (ch, n) (st_counts st) <-> n = ag_messages_on a ch /\ n <> 0) /\
+  NoDup (map fst (st_counts st)).
+
+Lemma Inv_record_correct cs s :
+  Inv cs s -> record_correct cs (N.of_nat (length (w_chunk_indexes s))) (stats_record s).
+Proof.
+  intros ((A1&A2&A3&A4)&(B1&_)&(C1&C2&_&C4&C5)&D&E&F&G).
+  unfold record_correct, true_stats, stats_record. cbn.
+  repeat split; auto.
+  - apply in_flat_map in H. destruct H as (k & Hk & H).
+    destruct (nn_get k (w_st_counts s)) eqn:Eg; [|contradiction].
+    destruct H as [H|[]]. injection H as -> ->. rewrite A2 in Eg. unfold on_opt in Eg.
+    destruct (count_calls (is_message_on ch) cs =? 0); [discriminate | congruence].
+  - apply in_flat_map in H. destruct H as (k & Hk & H).
+    destruct (nn_get k (w_st_counts s)) eqn:Eg; [|contradiction].
+    destruct H as [H|[]]. injection H as -> ->. rewrite A2 in Eg. unfold on_opt in Eg.
+    destruct (N.eqb_spec (count_calls (is_message_on ch) cs) 0); [discriminate|]. congruence.
+  - intros [-> Hn]. apply in_flat_map. exists ch. split.
+    + apply C4, G, Hn.
+    + rewrite A2, on_opt_pos by exact Hn. left. reflexivity.
+  - apply counts_nodup, C5.
+Qed.
+
+End Facts.
+
+(* ====================================================================== *)
+(* Part 6: top-level statements about W                                    *)
+(* ====================================================================== *)
+
+Lemma skip_stats_effective o : o_skip_stats (effective_opts o) = o_skip_stats o.
+Proof. unfold effective_opts. destruct (o_chunked o && (o_chunksize o =? 0)%Z); reflexivity. Qed.
+
+(* C13: the output does not depend on the insertion order of the map arguments *)
+Theorem C13_map_order_proof : forall o lib comp flt cs cs', Forall2 call_equiv cs cs' ->
+  let R := W o lib comp flt cs in let R' := W o lib comp flt cs' in
+  r_new R = r_new R' /\ r_calls R = r_calls R' /\ r_writes R = r_writes R'.
+Proof.
+  intros o lib comp flt cs cs' H. cbv zeta. unfold W.
+  destruct (new_writer (effective_opts o) flt) as [s [e|]]; [repeat split|].
+  pose proof (run_calls_sim (effective_opts o) lib comp flt cs cs' H s s [] (sim_refl s)) as [H1 H2].
+  destruct (run_calls (effective_opts o) lib comp flt cs s []) as [t rs].
+  destruct (run_calls (effective_opts o) lib comp flt cs' s []) as [t' rs'].
+  cbn [fst snd] in *. subst rs'. cbn [r_new r_calls r_writes]. repeat split.
+  destruct H1 as [ch [-> _]]. reflexivity.
+Qed.
+
+(* C08 (writer half): for runs in which NewWriter and every call succeed, the statistics
+   fields of the final state are the true aggregates of the calls.  (Holds for any fault
+   setting, in particular flt = None: a triggered fault makes some call fail.) *)
+Theorem C08_writer_statistics_proof : forall o lib comp flt cs,
+  let R := W o lib comp flt cs in
+  r_new R = None -> Forall (fun r => fst r = None) (r_calls R) ->
+  stats_correct cs (r_final R).
+Proof.
+  intros o lib comp flt cs. cbv zeta. unfold W.
+  destruct (new_writer (effective_opts o) flt) as [s [e|]] eqn:NW; [cbn; discriminate|].
+  rewrite run_calls_spec. cbn [r_new r_calls r_final rev app]. intros _ HF.
+  apply Inv_stats_correct.
+  apply (run_inv (effective_opts o) lib comp flt cs [] s); [|exact HF].
+  eapply new_writer_inv; exact NW.
+Qed.
+
+(* ... and when the last call is Close, the Statistics record it emits is stats_record of
+   the final state, whose fields are those aggregates. *)
+Theorem C08_statistics_record_proof : forall o lib comp flt cs0,
+  let cs := cs0 ++ [CClose] in
+  let R := W o lib comp flt cs in
+  r_new R = None -> Forall (fun r => fst r = None) (r_calls R) -> o_skip_stats o = false ->
+  let st := stats_record (r_final R) in
+  In (IRec OpStatistics (enc_statistics st)) (w_trace (r_final R)) /\
+  record_correct cs (N.of_nat (length (w_chunk_indexes (r_final R)))) st.
+Proof.
+  intros o lib comp flt cs0. cbv zeta. unfold W.
+  destruct (new_writer (effective_opts o) flt) as [s [e|]] eqn:NW; [cbn; discriminate|].
+  rewrite run_calls_spec. cbn [r_new r_calls r_final rev app]. intros _ HF Hskip. split.
+  - rewrite run_states_snoc.
+    rewrite run_results_snoc in HF. apply Forall_app in HF. destruct HF as [_ HF].
+    apply Forall_cons_iff in HF. destruct HF as [He _]. cbn [fst step] in *.
+    destruct (close (effective_opts o) comp flt (run_states (effective_opts o) lib comp flt cs0 s)) as [t e] eqn:CL.
+    cbn [fst snd] in *. subst e.
+    eapply close_stats; [rewrite skip_stats_effective; exact Hskip | exact CL].
+  - apply Inv_record_correct.
+    apply (run_inv (effective_opts o) lib comp flt (cs0 ++ [CClose]) [] s); [|exact HF].
+    eapply new_writer_inv; exact NW.
 Qed.
